@@ -1,8 +1,84 @@
-(* Proofs/AnnBalance.v -- property C09 at the level of the render-tree model:
-   annotation stacks are balanced over every node, and every tag stored in a
-   sub-renderer comes from the annotation stack that was current when it was made.
+(* Proofs/AnnBalance.v -- property C09 at the level of the render-tree model (Render.v):
+   annotation stacks are balanced over every node, and every tag stored in a sub-renderer
+   comes from the annotation stack that was current when it was made.
+   Partial correctness (only the Ok outcome is considered), for ALL render trees, decorators,
+   options and states; no hypotheses on the input, nothing assumed.
 
-   See the end of the file for the main theorems and the recorded findings. *)
+   MAIN THEOREMS (section 5)
+
+   meta_of s = (width, options, annotation stack, strikeout-filter depth, preformat depth,
+                white-space mode stack) of a sub-renderer.
+
+   (1) BALANCE
+     render_node_balanced :
+       render_node d mw n st = Ok st' -> stack st = s :: rest ->
+       exists s', stack st' = s' :: rest /\ meta_of s' = meta_of s.
+         (the sub-renderers below the top one are literally unchanged, so the stack depth is
+          restored; the top one gets its annotation stack, filter depth, preformat depth and
+          white-space modes back: nothing leaks past the end of an element.  All node kinds:
+          styled nodes, links, images, tables/rows/cells, lists, pre.)
+     render_node_balanced_fields : the same, field by field.
+     render_kids_balanced        : the same for a list of nodes.
+     new_sub_renderer_meta, sub_renderer_balanced :
+       a nested sub-renderer (heading, quote, list item, dd, table cell) starts with
+       (w, options of the parent, annotation stack of the parent, 0, 0, []) and has exactly
+       that meta part again when it is popped; the parent stack is as before.
+     render_tree_balanced : render_tree d mw o width tree = Ok s ->
+                            meta_of s = (width, o, [], 0, 0, []).
+
+   (2) ENCLOSING ANNOTATIONS
+     sub_Q Q s = every tag stored in s satisfies Q: finished lines (text pieces and border
+     lines), pending fragment markers, the open wrapping block (finished lines, current line,
+     current word, tag of the pending inter-word space).
+     render_node_tags (the invariant; render_kids_tags for lists of nodes) :
+       Q [] -> render_node d mw n st = Ok st' -> stack st = s :: rest ->
+       (forall x, Q (ann_stack s ++ x)) -> sub_Q Q s ->
+       exists s', stack st' = s' :: rest /\ meta_of s' = meta_of s /\ sub_Q Q s'.
+     render_node_new_tags ("old or new"; render_kids_new_tags) :
+       ... sub_Q Qold s -> ... sub_Q (fun t => Qold t \/ t = [] \/ ext (ann_stack s) t) s'
+       i.e. every tag that was not there before extends the annotation stack at entry --
+       document text, decorator text, list/quote/heading prefixes, table borders, cell padding
+       and column separators -- or is the EMPTY tag.  Who carries what, according to the model:
+         * prefixes (append_subrender), horizontal borders, table cell padding, separators and
+           row borders carry the annotation stack of the renderer they are added to
+           (attach_prefixes_Q, add_horizontal_border_width_Q, append_columns_Q, vert_cols_Q);
+         * block padding (pad_block_width, force_flush_line) carries the tag of the pending
+           inter-word space if there is one, else the empty tag [] (force_flush_line_Q) --
+           this is why Q [] is required;
+         * the footnote list of render_tree carries [ADefault] (not part of render_node).
+     sub_renderer_tags : a popped sub-renderer only contains tags extending the parent's stack
+       (or []).
+     text_leaf_tags : for RN (IText t) sty the new tags are EXACTLY
+         A                         (A = stack at entry ++ colour annotations of sty), or
+         A ++ [d_pre_first d] / A ++ [d_pre_cont d]  when the preformat depth is positive
+       (or [] for padding).
+     inline_element_tags : for <em>/<strong>/<s>/<code> (with any style) every new tag
+       extends  stack at entry ++ colours of the style ++ [the element's annotation]:
+       opening/closing decorator text and all descendants through any nesting.
+     For links/superscript/dt the same follows from meta_start_deco (what is pushed) +
+     render_kids_new_tags (children) + balance; the footnote marker [n] of a link is added
+     AFTER the link annotation is popped, so it does not carry it.
+
+   (3) "concatenating the pieces of a line gives the string output" is already
+       ApiProofs.rline_string_into_tagged / routes_agree (Props/C10.v); not repeated.
+
+   FINDINGS (section 7; examples computed in the model, confirmed on the implementation)
+     F1  new_sub_renderer copies only the annotation stack: preformat depth and white-space
+         mode are NOT inherited, so text in a list item / quote / heading / dd / table cell
+         inside <pre> loses the Preformat annotation and its white space.
+     F2  the strikeout text filter is not inherited either (struck text inside a nested block
+         is not struck with the plain decorator although it carries Strikeout with the rich one).
+     F3  block padding takes the tag of the last pending inter-word space even if that element
+         is closed: <p>x<em> </em></p> with pad_block_width pads the line with spaces tagged
+         Emphasis (a leak past the end of the element, padding only).
+
+   STRUCTURE
+     1  meta part, preserved by every content operation of the sub-renderer
+     2  tags in tagged lines / wrapping blocks (every WrappedBlock operation)
+     3  tags in sub-renderers (lines, prefixes, tables)
+     4  render layer: opT/stT (effect on the meta part + tag invariant), styles
+        (apply_style/unwind are inverse: h_g_style), node_T_all by induction on the tree
+     5  main theorems, 6 non-vacuity examples, 7 findings *)
 From H2T Require Import Base Tagged Wrap Sub Css Dom Render Api.
 From H2T Require Import Proofs.RenderWidth.
 From Coq Require Import Lia ZifyN ZifyBool ZifyNat.
@@ -296,8 +372,8 @@ Section TagInv.
     - destruct e as [s1 t1|nm].
       + inversion Hl as [|? ? He Hv]; subst. destruct (tag_eqb t1 t); cbn [tv].
         * constructor; [exact He|exact Hv].
-        * rewrite E. constructor; [exact Ht|exact Hl].
-      + rewrite E. constructor; [exact Ht|exact Hl].
+        * constructor; [exact Ht|exact Hl].
+      + constructor; [exact Ht|exact Hl].
   Qed.
 
   Lemma tl_pad_to_Q l w t l' : tl_Q l -> Q t -> tl_pad_to l w t = Ok l' -> tl_Q l'.
@@ -342,13 +418,13 @@ Section TagInv.
     - bind_inv H sc Hsc. destruct sc as [[taken ll'] wpos']. bind_inv H b2 Hb2.
       eapply IH; [|exact Ht|exact H].
       eapply force_flush_line_Q; [|exact Hb2].
-      apply wb_Q_set_line; [exact Hb|]. apply tl_push_Q; [apply Hb|exact Ht].
+      apply wb_Q_set_line; [exact Hb|]. first [apply tl_push_str_Q|apply tl_push_Q|unfold tl_Q; cbn [tv]; apply v_push_merge_Q]; [apply Hb|exact Ht].
     - destruct (negb consumed).
       + bind_inv H ll Hll. ok_inv H. cbn [fst].
-        apply wb_Q_set_line; [exact Hb|]. apply tl_push_Q; [apply Hb|exact Ht].
+        apply wb_Q_set_line; [exact Hb|]. first [apply tl_push_str_Q|apply tl_push_Q|unfold tl_Q; cbn [tv]; apply v_push_merge_Q]; [apply Hb|exact Ht].
       + destruct rest as [|c rest]; [ok_inv H; exact Hb|].
         bind_inv H ll Hll. ok_inv H. cbn [fst].
-        apply wb_Q_set_line; [exact Hb|]. apply tl_push_Q; [apply Hb|exact Ht].
+        apply wb_Q_set_line; [exact Hb|]. first [apply tl_push_str_Q|apply tl_push_Q|unfold tl_Q; cbn [tv]; apply v_push_merge_Q]; [apply Hb|exact Ht].
   Qed.
 
   Lemma hw_elems_Q : forall els b lineleft b',
@@ -400,7 +476,7 @@ Section TagInv.
       { destruct (0 <? wslen b); [|ok_inv Hb1; exact Hb].
         destruct (spacetag b) as [st|] eqn:Es; [|discriminate]. ok_inv Hb1.
         apply wb_Q_set_space; [|exact I]. apply wb_Q_set_line; [exact Hb|].
-        apply tl_push_Q; [apply Hb|]. cbn [elem_Q]. auto. }
+        apply tl_push_str_Q; [apply Hb|]. auto. }
       apply wb_Q_set_word; [|constructor]. apply wb_Q_set_line; [exact Hb1q|].
       apply fold_push_Q; apply Hb1q.
     - bind_inv H b1 Hb1. bind_inv H b2 Hb2. bind_inv H b4 Hb4. bind_inv H b6 Hb6. ok_inv H.
@@ -500,7 +576,7 @@ Section TagInv.
     wb_Q b -> Q mt -> Q wt -> wb_add_text b s m mt wt = Ok b' -> wb_Q b'.
   Proof.
     intros Hb Hm Hw H. unfold wb_add_text in H. bind_inv H r Hr. ok_inv H.
-    eapply add_chars_Q; eassumption.
+    apply (add_chars_Q _ _ _ _ _ _ _ Hb Hm Hw Hr).
   Qed.
 
   Lemma wb_add_element_Q b e : wb_Q b -> elem_Q e -> wb_Q (wb_add_element b e).
@@ -512,4 +588,1599 @@ Section TagInv.
 
   Lemma wb_new_Q w p o : wb_Q (wb_new w p o).
   Proof. unfold wb_Q, wb_new. cbn. repeat split; constructor. Qed.
+
+  (* ================================================================ *)
+  (* 3. Tags stored in a sub-renderer                                   *)
+  (* ================================================================ *)
+
+  Definition rline_Q (r : rline) : Prop := match r with RText l => tl_Q l | RLine _ t => Q t end.
+  Definition owb_Q (o : option wblock) : Prop := match o with Some b => wb_Q b | None => True end.
+  (* all tags stored anywhere in the sub-renderer: finished lines (text and borders), pending
+     fragment markers, and the open wrapping block (finished lines, current line, current word,
+     the tag of the pending inter-word space) *)
+  Definition sub_Q (s : subr) : Prop :=
+    Forall rline_Q (slines s) /\ Forall elem_Q (pending_frags s) /\ owb_Q (wrapping s).
+  Definition set_Q (p : N * list rline) : Prop := Forall rline_Q (snd p).
+
+  (* every extension of t satisfies Q *)
+  Definition Qext (t : tag) : Prop := forall x, Q (t ++ x).
+  Lemma Qext_self t : Qext t -> Q t.
+  Proof. intros H. specialize (H []). rewrite app_nil_r in H. exact H. Qed.
+  Lemma Qext_app t x : Qext t -> Qext (t ++ x).
+  Proof. intros H y. rewrite <- app_assoc. apply H. Qed.
+
+  Definition main_tag_of (d : deco) (s : subr) : tag :=
+    if 0 <? pre_depth s then ann_stack s ++ [d_pre_first d] else ann_stack s.
+  Definition cont_tag_of (d : deco) (s : subr) : tag :=
+    if 0 <? pre_depth s then ann_stack s ++ [d_pre_cont d] else ann_stack s.
+  Lemma Qext_main d s : Qext (ann_stack s) -> Q (main_tag_of d s).
+  Proof. intros H. unfold main_tag_of. destruct (0 <? pre_depth s); [apply H|apply Qext_self, H]. Qed.
+  Lemma Qext_cont d s : Qext (ann_stack s) -> Q (cont_tag_of d s).
+  Proof. intros H. unfold cont_tag_of. destruct (0 <? pre_depth s); [apply H|apply Qext_self, H]. Qed.
+
+  Lemma sub_Q_body s s' :
+    slines s' = slines s -> pending_frags s' = pending_frags s -> wrapping s' = wrapping s ->
+    sub_Q s -> sub_Q s'.
+  Proof. unfold sub_Q. intros -> -> ->. auto. Qed.
+
+  Lemma meta_ann s s' : meta_of s' = meta_of s -> ann_stack s' = ann_stack s.
+  Proof. intros E. apply (f_equal m_ann) in E. exact E. Qed.
+  Lemma meta_pre s s' : meta_of s' = meta_of s -> pre_depth s' = pre_depth s.
+  Proof. intros E. apply (f_equal m_pre) in E. exact E. Qed.
+
+  Lemma add_line_Q s l : sub_Q s -> rline_Q l -> sub_Q (add_line s l).
+  Proof.
+    intros (A & B & C) Hl. unfold add_line.
+    destruct (pending_frags s) as [|e pf] eqn:E; destruct l as [tl|b t]; unfold sub_Q;
+      cbn [slines pending_frags wrapping set_lines]; rewrite ?E.
+    - split; [|auto]. apply Forall_app. split; [exact A|]. constructor; [exact Hl|constructor].
+    - split; [|auto]. apply Forall_app. split; [exact A|]. constructor; [exact Hl|constructor].
+    - split; [|split; [constructor|exact C]]. apply Forall_app. split; [exact A|].
+      constructor; [|constructor]. cbn [rline_Q] in *.
+      apply fold_push_Q; [|exact Hl]. apply fold_push_Q; [apply tl_new_Q|exact B].
+    - split; [|auto]. apply Forall_app. split; [exact A|]. constructor; [exact Hl|constructor].
+  Qed.
+
+  Lemma extend_lines_Q : forall ls s, sub_Q s -> Forall rline_Q ls -> sub_Q (extend_lines s ls).
+  Proof.
+    unfold extend_lines. induction ls as [|l ls IH]; intros s Hs Hls; cbn [fold_left]; [exact Hs|].
+    inversion Hls; subst. apply IH; [apply add_line_Q|]; assumption.
+  Qed.
+
+  Lemma flush_wrapping_Q s s' : sub_Q s -> flush_wrapping s = Ok s' -> sub_Q s'.
+  Proof.
+    intros (A & B & C) H. unfold flush_wrapping in H.
+    destruct (wrapping s) as [w|] eqn:Ew; [|ok_inv H; unfold sub_Q; rewrite Ew; auto].
+    cbn [owb_Q] in C. pose proof (take_trailing_fragments_Q w C) as [Hw1 Hfr].
+    destruct (take_trailing_fragments w) as [w1 frags]. cbn [fst snd] in *.
+    bind_inv H ls Hls. ok_inv H.
+    pose proof (wb_into_lines_Q _ _ Hw1 Hls) as Hlq.
+    assert (S0 : sub_Q (set_wrapping s None)) by (unfold sub_Q; cbn; auto).
+    assert (Hls' : Forall rline_Q (map RText ls)).
+    { apply Forall_forall. intros r Hr. apply in_map_iff in Hr. destruct Hr as (l & <- & Hl).
+      rewrite Forall_forall in Hlq. apply Hlq, Hl. }
+    destruct (extend_lines_Q _ _ S0 Hls') as (A1 & B1 & C1).
+    unfold sub_Q. cbn [slines pending_frags wrapping set_lines].
+    split; [exact A1|]. split; [apply Forall_app; split; assumption|exact C1].
+  Qed.
+
+  Lemma sub_into_lines_Q s ls : sub_Q s -> sub_into_lines s = Ok ls -> Forall rline_Q ls.
+  Proof.
+    intros Hs H. unfold sub_into_lines in H. bind_inv H s1 H1. ok_inv H.
+    apply (flush_wrapping_Q _ _ Hs H1).
+  Qed.
+
+  Lemma set_abe_Q s b : sub_Q s -> sub_Q (set_abe s b).
+  Proof. apply sub_Q_body; reflexivity. Qed.
+
+  Lemma add_empty_line_Q s s' : sub_Q s -> add_empty_line s = Ok s' -> sub_Q s'.
+  Proof.
+    intros Hs H. unfold add_empty_line in H. bind_inv H s1 H1. ok_inv H.
+    apply set_abe_Q, add_line_Q; [eapply flush_wrapping_Q; eassumption|apply tl_new_Q].
+  Qed.
+
+  Lemma start_block_Q s s' : sub_Q s -> start_block s = Ok s' -> sub_Q s'.
+  Proof.
+    intros Hs H. unfold start_block in H. bind_inv H s1 H1. bind_inv H s2 H2. ok_inv H.
+    apply set_abe_Q. pose proof (flush_wrapping_Q _ _ Hs H1) as Hs1.
+    destruct (existsb rline_has_content (slines s1)).
+    - eapply add_empty_line_Q; eassumption.
+    - ok_inv H2. exact Hs1.
+  Qed.
+
+  Lemma new_line_hard_Q s s' : sub_Q s -> new_line_hard s = Ok s' -> sub_Q s'.
+  Proof.
+    intros Hs H. unfold new_line_hard in H. destruct (wrapping s) as [w|].
+    - destruct ((wordlen w =? 0) && (tlen_ (wline w) =? 0)).
+      + eapply add_empty_line_Q; eassumption.
+      + eapply flush_wrapping_Q; eassumption.
+    - eapply add_empty_line_Q; eassumption.
+  Qed.
+
+  Lemma add_horizontal_line_Q s b t s' :
+    sub_Q s -> Q t -> add_horizontal_line s b t = Ok s' -> sub_Q s'.
+  Proof.
+    intros Hs Ht H. unfold add_horizontal_line in H. bind_inv H s1 H1. ok_inv H.
+    apply add_line_Q; [eapply flush_wrapping_Q; eassumption|exact Ht].
+  Qed.
+
+  (* a horizontal border carries the current annotation stack *)
+  Lemma add_horizontal_border_width_Q s w s' :
+    sub_Q s -> Q (ann_stack s) -> add_horizontal_border_width s w = Ok s' -> sub_Q s'.
+  Proof.
+    intros Hs Ht H. unfold add_horizontal_border_width in H. bind_inv H s1 H1. ok_inv H.
+    apply add_line_Q; [eapply flush_wrapping_Q; eassumption|].
+    cbn [rline_Q]. rewrite (meta_ann _ _ (meta_flush_wrapping _ _ H1)). exact Ht.
+  Qed.
+
+  Lemma get_wrapping_Q s : sub_Q s -> wb_Q (get_wrapping s).
+  Proof.
+    intros (_ & _ & C). unfold get_wrapping. destruct (wrapping s); [exact C|apply wb_new_Q].
+  Qed.
+
+  (* inline text: its characters get exactly the current annotation stack, plus the
+     Preformat(first/continuation) annotation when inside <pre> *)
+  Lemma add_inline_text_Q d s t s' :
+    sub_Q s -> Q (main_tag_of d s) -> Q (cont_tag_of d s) -> add_inline_text d s t = Ok s' -> sub_Q s'.
+  Proof.
+    intros Hs Hm Hc H. unfold add_inline_text in H.
+    destruct (negb (preserve_ws (ws_mode s)) && at_block_end s && all_ws t); [ok_inv H; exact Hs|].
+    bind_inv H s1 H1. bind_inv H w1 Hw1. ok_inv H.
+    assert (E : meta_of s1 = meta_of s /\ sub_Q s1).
+    { destruct (at_block_end s).
+      - split; [eapply meta_start_block, H1|eapply start_block_Q; eassumption].
+      - ok_inv H1. auto. }
+    destruct E as [E Hs1]. unfold main_tag_of, cont_tag_of in *.
+    rewrite (meta_pre _ _ E), (meta_ann _ _ E) in Hw1.
+    pose proof (wb_add_text_Q _ _ _ _ _ _ (get_wrapping_Q _ Hs1) Hm Hc Hw1) as Hq.
+    destruct Hs1 as (A & B & _). unfold sub_Q. cbn [slines pending_frags wrapping set_wrapping]. auto.
+  Qed.
+
+  Lemma add_inline_text_Qext d s t s' :
+    sub_Q s -> Qext (ann_stack s) -> add_inline_text d s t = Ok s' -> sub_Q s'.
+  Proof.
+    intros Hs Hx. apply add_inline_text_Q; [exact Hs|apply Qext_main, Hx|apply Qext_cont, Hx].
+  Qed.
+
+  Lemma record_frag_start_Q s name : sub_Q s -> sub_Q (record_frag_start s name).
+  Proof.
+    intros Hs. pose proof (get_wrapping_Q _ Hs) as Hw. destruct Hs as (A & B & _).
+    unfold record_frag_start, sub_Q. cbn [slines pending_frags wrapping set_wrapping].
+    split; [exact A|]. split; [exact B|]. apply wb_add_element_Q; [exact Hw|exact I].
+  Qed.
+
+  (* ---- prefixes: they carry the annotation stack of the renderer they are appended to ---- *)
+  Lemma attach_prefix_Q t p l : Q t -> rline_Q l -> rline_Q (attach_prefix t p l).
+  Proof.
+    intros Ht Hl. destruct l as [tl|b bt]; cbn [attach_prefix].
+    - destruct p; [exact Hl|]. cbn [rline_Q]. apply tl_insert_front_Q; assumption.
+    - cbn [rline_Q]. apply tl_push_Q; [apply tl_push_Q; [apply tl_new_Q|exact Ht]|exact Ht].
+  Qed.
+
+  Lemma attach_prefixes_Q t first rest ls :
+    Q t -> Forall rline_Q ls -> Forall rline_Q (attach_prefixes t first rest ls).
+  Proof.
+    intros Ht Hls. destruct ls as [|l ls]; cbn [attach_prefixes]; [constructor|].
+    inversion Hls as [|? ? H1 H2]; subst. constructor; [apply attach_prefix_Q; assumption|].
+    apply Forall_forall. intros r Hr. apply in_map_iff in Hr. destruct Hr as (l' & <- & Hl').
+    rewrite Forall_forall in H2. apply attach_prefix_Q; [exact Ht|apply H2, Hl'].
+  Qed.
+
+  Lemma append_subrender_Q s other first rest s' :
+    sub_Q s -> sub_Q other -> Q (ann_stack s) ->
+    append_subrender s other first rest = Ok s' -> sub_Q s'.
+  Proof.
+    intros Hs Ho Ht H. unfold append_subrender in H. bind_inv H s1 H1. bind_inv H ols H2. ok_inv H.
+    apply extend_lines_Q; [apply (flush_wrapping_Q _ _ Hs H1)|].
+    apply attach_prefixes_Q; [|apply (sub_into_lines_Q _ _ Ho H2)].
+    rewrite (meta_ann _ _ (meta_flush_wrapping _ _ H1)). exact Ht.
+  Qed.
+
+  (* ---- table rows: padding, separators and borders carry the annotation stack of the
+          renderer the row is appended to ---- *)
+  Lemma pad_cell_lines_Q w t : Q t -> forall ls pls,
+    Forall rline_Q ls -> pad_cell_lines w t ls = Ok pls -> Forall rline_Q pls.
+  Proof.
+    intros Ht. induction ls as [|l ls IH]; intros pls Hls H; cbn [pad_cell_lines] in H;
+      [ok_inv H; constructor|].
+    inversion Hls as [|? ? H1 H2]; subst. destruct l as [tl|b bt].
+    - bind_inv H tl' Htl. bind_inv H r Hr. ok_inv H. constructor; [|eapply IH; eassumption].
+      cbn [rline_Q] in *. eapply tl_pad_to_Q; eassumption.
+    - bind_inv H r Hr. ok_inv H. constructor; [exact H1|eapply IH; eassumption].
+  Qed.
+
+  Lemma col_line_sets_Q t : Q t -> forall cols sets,
+    Forall sub_Q cols -> col_line_sets t cols = Ok sets -> Forall set_Q sets.
+  Proof.
+    intros Ht. induction cols as [|c cols IH]; intros sets Hc H; cbn [col_line_sets] in H;
+      [ok_inv H; constructor|].
+    inversion Hc as [|? ? H1 H2]; subst. bind_inv H ls Hls. bind_inv H pls Hpls. bind_inv H r Hr.
+    ok_inv H. constructor; [|eapply IH; eassumption]. unfold set_Q. cbn [snd].
+    eapply pad_cell_lines_Q; [exact Ht| |exact Hpls]. eapply sub_into_lines_Q; eassumption.
+  Qed.
+
+  Lemma collapse_top_Q : forall sets prev pos r,
+    Forall set_Q sets -> collapse_top sets prev pos = Ok r -> Forall set_Q (snd r).
+  Proof.
+    induction sets as [|[w sub] sets IH]; intros prev pos r Hs H; cbn [collapse_top] in H;
+      [ok_inv H; constructor|].
+    inversion Hs as [|? ? H1 H2]; subst. unfold set_Q in H1. cbn [snd] in H1.
+    destruct sub as [|[tl|line lt] sub'].
+    - bind_inv H r0 Hr0. ok_inv H. cbn [snd]. constructor; [exact H1|eapply IH; eassumption].
+    - bind_inv H r0 Hr0. ok_inv H. cbn [snd]. constructor; [exact H1|eapply IH; eassumption].
+    - destruct prev as [pb|]; [|discriminate]. bind_inv H r0 Hr0. ok_inv H. cbn [snd].
+      constructor; [|eapply IH; eassumption]. unfold set_Q. cbn [snd]. inversion H1; assumption.
+  Qed.
+
+  Lemma Forall_removelast {A} (P : A -> Prop) l : Forall P l -> Forall P (removelast l).
+  Proof.
+    intros H. apply Forall_forall. intros x Hx. rewrite Forall_forall in H.
+    apply H. apply In_removelast, Hx.
+  Qed.
+
+  Lemma collapse_bottom_Q : forall sets next pos,
+    Forall set_Q sets -> Forall set_Q (snd (fst (collapse_bottom sets next pos))).
+  Proof.
+    induction sets as [|[w sub] sets IH]; intros next pos Hs; cbn [collapse_bottom];
+      [constructor|].
+    inversion Hs as [|? ? H1 H2]; subst. unfold set_Q in H1. cbn [snd] in H1.
+    destruct (olast sub) as [[tl|line lt]|].
+    - specialize (IH next (pos + w + 1) H2).
+      destruct (collapse_bottom sets next (pos + w + 1)) as [[n' s'] p']. cbn [fst snd] in *.
+      constructor; [exact H1|exact IH].
+    - specialize (IH (merge_from_above next line pos) (pos + w + 1) H2).
+      destruct (collapse_bottom sets (merge_from_above next line pos) (pos + w + 1)) as [[n' s'] p'].
+      cbn [fst snd] in *. constructor; [|exact IH]. unfold set_Q. cbn [snd].
+      apply Forall_removelast, H1.
+    - specialize (IH next (pos + w + 1) H2).
+      destruct (collapse_bottom sets next (pos + w + 1)) as [[n' s'] p']. cbn [fst snd] in *.
+      constructor; [exact H1|exact IH].
+  Qed.
+
+  Lemma row_line_Q t draw i : Q t -> forall sets pads acc,
+    Forall set_Q sets -> tl_Q acc -> tl_Q (row_line t draw i sets pads acc).
+  Proof.
+    intros Ht. induction sets as [|[w ls] sets IH]; intros pads acc Hs Ha; cbn [row_line];
+      [exact Ha|].
+    inversion Hs as [|? ? H1 H2]; subst. unfold set_Q in H1. cbn [snd] in H1.
+    apply IH; [exact H2|].
+    assert (Hacc1 : tl_Q (match nth_opt ls i with
+                          | Some (RText tl) => tl_consume acc tl
+                          | Some (RLine b _) => tl_push acc (Str (border_string b) t)
+                          | None => tl_push acc (Str (match match pads with p :: _ => p | [] => None end with
+                                                           | Some p => p
+                                                           | None => spacesl L_pad w
+                                                           end) t)
+                          end)).
+    { destruct (nth_opt ls i) as [[tl|b bt]|] eqn:En.
+      - apply tl_consume_Q; [exact Ha|]. apply nth_opt_In in En. rewrite Forall_forall in H1.
+        apply (H1 _ En).
+      - apply tl_push_Q; [exact Ha|exact Ht].
+      - apply tl_push_Q; [exact Ha|exact Ht]. }
+    destruct sets; [exact Hacc1|]. apply tl_push_char_Q; [exact Hacc1|exact Ht].
+  Qed.
+
+  Lemma row_lines_Q t draw sets pads : Q t -> Forall set_Q sets -> forall n i s,
+    sub_Q s -> sub_Q (row_lines t draw n i sets pads s).
+  Proof.
+    intros Ht Hs. induction n as [|n IH]; intros i s Hq; cbn [row_lines]; [exact Hq|].
+    apply IH. apply add_line_Q; [exact Hq|]. cbn [rline_Q].
+    apply row_line_Q; [exact Ht|exact Hs|apply tl_new_Q].
+  Qed.
+
+  Lemma append_columns_Q s cols collapse s' :
+    sub_Q s -> Forall sub_Q cols -> Q (ann_stack s) ->
+    append_columns_with_borders s cols collapse = Ok s' -> sub_Q s'.
+  Proof.
+    intros Hs Hc Ht H. unfold append_columns_with_borders in H. bind_inv H s1 H1.
+    pose proof (flush_wrapping_Q _ _ Hs H1) as Hs1.
+    rewrite (meta_ann _ _ (meta_flush_wrapping _ _ H1)) in H.
+    bind_inv H sets H2. pose proof (col_line_sets_Q _ Ht _ _ Hc H2) as Hsets.
+    bind_inv H chk H3.
+    destruct (match olast (slines s1) with
+              | Some (RLine pb pt) =>
+                let '(p, n) := join_cols (map fst sets) pb
+                                 (border_new (sumN (map fst sets) + (N.of_nat (length sets) - 1))) 0 in
+                (Some p, n)
+              | _ => (None, border_new (sumN (map fst sets) + (N.of_nat (length sets) - 1)))
+              end) as [prev1 next1].
+    bind_inv H r H4. destruct r as [[[prev3 next3] sets4] pads]. ok_inv H.
+    assert (Hsets4 : Forall set_Q sets4).
+    { destruct collapse.
+      - bind_inv H4 ct Hct. destruct ct as [prev2 sets2].
+        pose proof (collapse_top_Q _ _ _ _ Hsets Hct) as Hs2. cbn [snd] in Hs2.
+        pose proof (collapse_bottom_Q sets2 next1 0 Hs2) as Hs3.
+        destruct (collapse_bottom sets2 next1 0) as [[next2 sets3] pads3]. cbn [fst snd] in Hs3.
+        ok_inv H4. exact Hs3.
+      - ok_inv H4. exact Hsets. }
+    assert (Hs2 : sub_Q (set_lines s1
+               match olast (slines s1) with
+               | Some (RLine _ pt) =>
+                   match prev3 with
+                   | Some pb => replace_last (slines s1) (RLine pb pt)
+                   | None => slines s1
+                   end
+               | _ => slines s1
+               end (pending_frags s1))).
+    { destruct Hs1 as (A & B & C). unfold sub_Q. cbn [slines pending_frags wrapping set_lines].
+      split; [|auto].
+      destruct (olast (slines s1)) as [[tl|pb0 pt]|] eqn:El; try exact A.
+      destruct prev3 as [pb|]; [|exact A]. unfold replace_last. apply Forall_app.
+      split; [apply Forall_removelast, A|]. constructor; [|constructor].
+      apply olast_In in El. rewrite Forall_forall in A. apply (A _ El). }
+    match goal with |- sub_Q (if ?c then _ else _) => destruct c end.
+    - apply add_line_Q; [|exact Ht]. apply row_lines_Q; assumption.
+    - apply row_lines_Q; assumption.
+  Qed.
+
+  Lemma vert_cols_Q : forall cols s first s',
+    sub_Q s -> Forall sub_Q cols -> Q (ann_stack s) -> vert_cols s cols first = Ok s' -> sub_Q s'.
+  Proof.
+    induction cols as [|c cols IH]; intros s first s' Hs Hc Ht H; cbn [vert_cols] in H;
+      [ok_inv H; exact Hs|].
+    inversion Hc as [|? ? Hc1 Hc2]; subst. bind_inv H s1 H1. bind_inv H s2 H2.
+    assert (E1 : meta_of s1 = meta_of s /\ sub_Q s1).
+    { destruct (negb first && o_borders (sopts s)).
+      - split; [eapply meta_add_horizontal_line, H1|apply (add_horizontal_line_Q _ _ _ _ Hs Ht H1)].
+      - ok_inv H1. auto. }
+    destruct E1 as [E1 Hs1].
+    assert (Ht1 : Q (ann_stack s1)) by (rewrite (meta_ann _ _ E1); exact Ht).
+    pose proof (append_subrender_Q _ _ _ _ _ Hs1 Hc1 Ht1 H2) as Hs2.
+    eapply IH; [exact Hs2|exact Hc2| |exact H].
+    rewrite (meta_ann _ _ (meta_append_subrender _ _ _ _ _ H2)). exact Ht1.
+  Qed.
+
+  Lemma append_vert_row_Q s cols s' :
+    sub_Q s -> Forall sub_Q cols -> Q (ann_stack s) -> append_vert_row s cols = Ok s' -> sub_Q s'.
+  Proof.
+    intros Hs Hc Ht H. unfold append_vert_row in H. bind_inv H s1 H1. bind_inv H s2 H2.
+    pose proof (flush_wrapping_Q _ _ Hs H1) as Hs1.
+    assert (Ht1 : Q (ann_stack s1)) by (rewrite (meta_ann _ _ (meta_flush_wrapping _ _ H1)); exact Ht).
+    pose proof (vert_cols_Q _ _ _ _ Hs1 Hc Ht1 H2) as Hs2.
+    destruct (o_borders (sopts s2)); [|ok_inv H; exact Hs2].
+    eapply add_horizontal_border_width_Q; [exact Hs2| |exact H].
+    rewrite (meta_ann _ _ (meta_vert_cols _ _ _ _ H2)). exact Ht1.
+  Qed.
+
+  Lemma new_sub_renderer_Q s w : sub_Q (new_sub_renderer s w).
+  Proof. unfold sub_Q, new_sub_renderer, sub_new. cbn. repeat split; constructor. Qed.
+
+  (* ================================================================ *)
+  (* 4. The render layer                                                *)
+  (* ================================================================ *)
+  Section RenderT.
+    Variable d : deco.
+    Variable mw : N.
+
+    (* An operation on the top sub-renderer: its effect g on the meta part, and (under a side
+       premise P) it keeps "all stored tags satisfy Q" when every extension of the current
+       annotation stack satisfies Q. *)
+    Definition opT (P : Prop) (g : meta -> meta) (f : subr -> res subr) : Prop :=
+      forall s s', f s = Ok s' ->
+        meta_of s' = g (meta_of s) /\ (P -> Qext (ann_stack s) -> sub_Q s -> sub_Q s').
+
+    (* The same for a step of the renderer state: only the top sub-renderer changes. *)
+    Definition stT (P : Prop) (g : meta -> meta) (st st' : rstate) : Prop :=
+      forall s rest, stack st = s :: rest ->
+        exists s', stack st' = s' :: rest /\ meta_of s' = g (meta_of s) /\
+                   (P -> Qext (ann_stack s) -> sub_Q s -> sub_Q s').
+
+    Definition mono (g : meta -> meta) : Prop := forall m, Qext (m_ann m) -> Qext (m_ann (g m)).
+
+    Lemma mono_idm : mono idm.
+    Proof. intros m H. exact H. Qed.
+    Lemma mono_push a : mono (m_push a).
+    Proof. intros m H. cbn. apply Qext_app, H. Qed.
+    Lemma mono_comp g1 g2 : mono g1 -> mono g2 -> mono (fun m => g2 (g1 m)).
+    Proof. intros H1 H2 m H. apply H2, H1, H. Qed.
+    Lemma mono_filt_inc : mono m_filt_inc.
+    Proof. intros m H. unfold m_filt_inc. destruct (o_strike (m_o m)); exact H. Qed.
+
+    Lemma stT_refl P st : stT P idm st st.
+    Proof. intros s rest E. exists s. auto. Qed.
+
+    Lemma stT_comp P g1 g2 a b c :
+      mono g1 -> stT P g1 a b -> stT P g2 b c -> stT P (fun m => g2 (g1 m)) a c.
+    Proof.
+      intros Hm H1 H2 s rest Es. destruct (H1 s rest Es) as (s1 & E1 & M1 & Q1).
+      destruct (H2 s1 rest E1) as (s2 & E2 & M2 & Q2). exists s2. split; [exact E2|].
+      split; [rewrite M2, M1; reflexivity|]. intros p Hx Hq. apply Q2; [exact p| |apply Q1; assumption].
+      change (Qext (m_ann (meta_of s1))). rewrite M1. apply Hm. exact Hx.
+    Qed.
+
+    Lemma stT_ext P g g' a b : (forall m, g m = g' m) -> stT P g a b -> stT P g' a b.
+    Proof.
+      intros E H s rest Es. destruct (H s rest Es) as (s1 & E1 & M1 & Q1). exists s1.
+      rewrite <- E. auto.
+    Qed.
+
+    Lemma stT_weaken (P P' : Prop) g a b : (P' -> P) -> stT P g a b -> stT P' g a b.
+    Proof.
+      intros HP H s rest Es. destruct (H s rest Es) as (s1 & E1 & M1 & Q1). exists s1. auto.
+    Qed.
+
+    Lemma stT_id_trans P a b c : stT P idm a b -> stT P idm b c -> stT P idm a c.
+    Proof.
+      intros H1 H2. apply (stT_ext P (fun m => idm (idm m))); [reflexivity|].
+      eapply stT_comp; [apply mono_idm|eassumption|eassumption].
+    Qed.
+
+    Lemma stT_bracket P g h a b c e :
+      mono g -> (forall m, h (g m) = m) ->
+      stT P g a b -> stT P idm b c -> stT P h c e -> stT P idm a e.
+    Proof.
+      intros Hm Hinv H1 H2 H3.
+      apply (stT_ext P (fun m => h (idm (g m)))); [intros m; apply Hinv|].
+      eapply (stT_comp P (fun m => idm (g m)) h); [|eapply stT_comp; [exact Hm|eassumption|eassumption]|exact H3].
+      exact Hm.
+    Qed.
+
+    Lemma stT_discharge tp rest0 g st st' :
+      stack st = tp :: rest0 -> stT (Qext (ann_stack tp)) g st st' -> stT True g st st'.
+    Proof.
+      intros E H s rest Es. destruct (H s rest Es) as (s1 & E1 & M1 & Q1). exists s1.
+      split; [exact E1|]. split; [exact M1|]. intros _ Hx Hq. apply Q1; [|exact Hx|exact Hq].
+      rewrite E in Es. injection Es as <- _. exact Hx.
+    Qed.
+
+    Lemma stT_stack_eq P g a a' b : stack a' = stack a -> stT P g a b -> stT P g a' b.
+    Proof. intros E H s rest Es. rewrite E in Es. apply H, Es. Qed.
+
+    Lemma stT_same_stack P st st' : stack st' = stack st -> stT P idm st st'.
+    Proof. intros E s rest Es. exists s. rewrite E. auto. Qed.
+
+    Lemma with_top_T P g f st st' : opT P g f -> with_top st f = Ok st' -> stT P g st st'.
+    Proof.
+      intros Hop H s rest Es. destruct (with_top_inv _ _ _ H) as (s0 & rest0 & s' & Es0 & Ef & ->).
+      rewrite Es in Es0. injection Es0 as <- <-. destruct (Hop _ _ Ef) as [M Qp].
+      exists s'. cbn [stack]. auto.
+    Qed.
+
+    Lemma opT_pure P g (f : subr -> subr) :
+      (forall s, meta_of (f s) = g (meta_of s)) ->
+      (forall s, slines (f s) = slines s /\ pending_frags (f s) = pending_frags s /\
+                 wrapping (f s) = wrapping s) ->
+      opT P g (fun s => Ok (f s)).
+    Proof.
+      intros Hm Hb s s' H. ok_inv H. split; [apply Hm|]. intros _ _ Hq.
+      destruct (Hb s) as (a & b & c). apply (sub_Q_body s); assumption.
+    Qed.
+
+    Lemma with_top'_T P g (f : subr -> subr) st st' :
+      opT P g (fun s => Ok (f s)) -> with_top' st f = Ok st' -> stT P g st st'.
+    Proof. unfold with_top'. apply with_top_T. Qed.
+
+    Lemma opT_weaken (P P' : Prop) g f : (P' -> P) -> opT P g f -> opT P' g f.
+    Proof. intros HP H s s' E. destruct (H s s' E) as [M Qp]. auto. Qed.
+
+    (* ---- the operations used by render_node ---- *)
+    Lemma add_inline_text_T P t : opT P idm (fun s => add_inline_text d s t).
+    Proof.
+      intros s s' H. split; [eapply meta_add_inline_text, H|].
+      intros _ Hx Hq. eapply add_inline_text_Qext; eassumption.
+    Qed.
+
+    (* start_*: the decorator's opening text gets the stack with the new annotation on it *)
+    Lemma start_deco_Q p s s' :
+      start_deco d s p = Ok s' -> Qext (ann_stack s ++ [snd p]) -> sub_Q s -> sub_Q s'.
+    Proof.
+      intros H Hx Hq. unfold start_deco in H. eapply add_inline_text_Qext; [| |exact H].
+      - apply (sub_Q_body s); [reflexivity..|exact Hq].
+      - exact Hx.
+    Qed.
+
+    Lemma start_strikeout_Q s s' :
+      start_strikeout d s = Ok s' -> Qext (ann_stack s ++ [snd (d_strike_start d)]) ->
+      sub_Q s -> sub_Q s'.
+    Proof.
+      intros H Hx Hq. unfold start_strikeout in H. bind_inv H s1 H1. ok_inv H.
+      pose proof (start_deco_Q _ _ _ H1 Hx Hq) as Q1.
+      destruct (o_strike (sopts s1)); [|exact Q1]. apply (sub_Q_body s1); [reflexivity..|exact Q1].
+    Qed.
+
+    Lemma start_deco_T P p : opT P (m_push (snd p)) (fun s => start_deco d s p).
+    Proof.
+      intros s s' H. split; [eapply meta_start_deco, H|]. intros _ Hx Hq.
+      unfold start_deco in H. eapply add_inline_text_Qext; [| |exact H].
+      - apply (sub_Q_body s); [reflexivity..|exact Hq].
+      - unfold push_ann. cbn [ann_stack set_ann]. apply Qext_app, Hx.
+    Qed.
+
+    Lemma end_deco_T P e : opT P m_pop (fun s => end_deco d s e).
+    Proof.
+      intros s s' H. split; [eapply meta_end_deco, H|]. intros _ Hx Hq.
+      unfold end_deco in H. bind_inv H s1 H1. ok_inv H.
+      apply (sub_Q_body s1); [reflexivity..|]. eapply add_inline_text_Qext; eassumption.
+    Qed.
+
+    Lemma start_strikeout_T P :
+      opT P (fun m => m_filt_inc (m_push (snd (d_strike_start d)) m)) (start_strikeout d).
+    Proof.
+      intros s s' H. split; [eapply meta_start_strikeout, H|]. intros p Hx Hq.
+      unfold start_strikeout in H. bind_inv H s1 H1. ok_inv H.
+      destruct (start_deco_T P _ _ _ H1) as [_ Q1]. specialize (Q1 p Hx Hq).
+      destruct (o_strike (sopts s1)); [|exact Q1]. apply (sub_Q_body s1); [reflexivity..|exact Q1].
+    Qed.
+
+    Lemma end_strikeout_T P : opT P (fun m => m_pop (m_filt_dec m)) (end_strikeout d).
+    Proof.
+      intros s s' H. split; [eapply meta_end_strikeout, H|]. intros p Hx Hq.
+      unfold end_strikeout in H. bind_inv H s1 H1.
+      destruct (end_deco_T P _ _ _ H) as [_ Q1]. apply Q1; [exact p| |].
+      - destruct (o_strike (sopts s)); [|ok_inv H1; exact Hx].
+        destruct (filter_depth s); [discriminate|]. ok_inv H1. exact Hx.
+      - destruct (o_strike (sopts s)); [|ok_inv H1; exact Hq].
+        destruct (filter_depth s); [discriminate|]. ok_inv H1.
+        apply (sub_Q_body s); [reflexivity..|exact Hq].
+    Qed.
+
+    Lemma add_image_T P src title : opT P idm (fun s => add_image d s src title).
+    Proof.
+      intros s s' H. split; [eapply meta_add_image, H|]. intros _ Hx Hq.
+      unfold add_image in H. bind_inv H s1 H1. ok_inv H.
+      apply (sub_Q_body s1); [reflexivity..|]. eapply add_inline_text_Qext; [| |exact H1].
+      - apply (sub_Q_body s); [reflexivity..|exact Hq].
+      - unfold push_ann. cbn [ann_stack set_ann]. apply Qext_app, Hx.
+    Qed.
+
+    Lemma start_block_T P : opT P idm start_block.
+    Proof.
+      intros s s' H. split; [eapply meta_start_block, H|]. intros _ _ Hq.
+      eapply start_block_Q; eassumption.
+    Qed.
+
+    Lemma new_line_T P : opT P idm new_line.
+    Proof.
+      intros s s' H. split; [eapply meta_flush_wrapping, H|]. intros _ _ Hq.
+      eapply flush_wrapping_Q; eassumption.
+    Qed.
+
+    Lemma new_line_hard_T P : opT P idm new_line_hard.
+    Proof.
+      intros s s' H. split; [eapply meta_new_line_hard, H|]. intros _ _ Hq.
+      eapply new_line_hard_Q; eassumption.
+    Qed.
+
+    Lemma end_block_T P : opT P idm (fun s => Ok (end_block s)).
+    Proof. apply opT_pure; intros s; [reflexivity|auto]. Qed.
+
+    Lemma record_frag_start_T P name : opT P idm (fun s => Ok (record_frag_start s name)).
+    Proof.
+      intros s s' H. ok_inv H. split; [reflexivity|]. intros _ _ Hq. apply record_frag_start_Q, Hq.
+    Qed.
+
+    Lemma add_horizontal_border_width_T P w : opT P idm (fun s => add_horizontal_border_width s w).
+    Proof.
+      intros s s' H. split; [eapply meta_add_horizontal_border_width, H|]. intros _ Hx Hq.
+      eapply add_horizontal_border_width_Q; [exact Hq|apply Qext_self, Hx|exact H].
+    Qed.
+
+    Lemma append_subrender_T (P : Prop) sub first rest_ :
+      (P -> sub_Q sub) -> opT P idm (fun s => append_subrender s sub first rest_).
+    Proof.
+      intros Hsub s s' H. split; [eapply meta_append_subrender, H|]. intros p Hx Hq.
+      eapply append_subrender_Q; [exact Hq|apply Hsub, p|apply Qext_self, Hx|exact H].
+    Qed.
+
+    Lemma append_columns_T (P : Prop) subs c :
+      (P -> Forall sub_Q subs) -> opT P idm (fun s => append_columns_with_borders s subs c).
+    Proof.
+      intros Hsub s s' H. split; [eapply meta_append_columns, H|]. intros p Hx Hq.
+      eapply append_columns_Q; [exact Hq|apply Hsub, p|apply Qext_self, Hx|exact H].
+    Qed.
+
+    Lemma append_vert_row_T (P : Prop) subs :
+      (P -> Forall sub_Q subs) -> opT P idm (fun s => append_vert_row s subs).
+    Proof.
+      intros Hsub s s' H. split; [eapply meta_append_vert_row, H|]. intros p Hx Hq.
+      eapply append_vert_row_Q; [exact Hq|apply Hsub, p|apply Qext_self, Hx|exact H].
+    Qed.
+
+    (* ---- styles: apply_style / unwind ---- *)
+    Definition wsm_of (cs : cstyle) : option wsmode :=
+      match ws_val (c_white_space (cs_core cs)) with
+      | Some WsPre => Some WsPre
+      | Some WsPreWrap => Some WsPreWrap
+      | _ => None
+      end.
+    Definition g_col (mk : N -> N -> N -> ann) (o : option (N * N * N)) (m : meta) : meta :=
+      match o with
+      | Some (r, g, b) => if d_colours d then m_push (mk r g b) m else m
+      | None => m
+      end.
+    Definition h_col (o : option (N * N * N)) (m : meta) : meta :=
+      match o with Some _ => if d_colours d then m_pop m else m | None => m end.
+    Definition g_ws (o : option wsmode) (m : meta) : meta :=
+      match o with Some w => m_ws_push w m | None => m end.
+    Definition h_ws (o : option wsmode) (m : meta) : meta :=
+      match o with Some _ => m_ws_pop m | None => m end.
+    Definition g_pre (b : bool) (m : meta) : meta := if b then m_pre_inc m else m.
+    Definition h_pre (b : bool) (m : meta) : meta := if b then m_pre_dec m else m.
+
+    (* the effect of a node's style on the meta part of the top sub-renderer *)
+    Definition g_style (cs : cstyle) (m : meta) : meta :=
+      g_pre (cs_internal_pre cs)
+        (g_ws (wsm_of cs)
+           (g_col ABg (ws_val (c_bg (cs_core cs)))
+              (g_col AColour (ws_val (c_colour (cs_core cs))) m))).
+    Definition h_style (cs : cstyle) (m : meta) : meta :=
+      h_pre (cs_internal_pre cs)
+        (h_ws (wsm_of cs)
+           (h_col (ws_val (c_colour (cs_core cs)))
+              (h_col (ws_val (c_bg (cs_core cs))) m))).
+    Definition pushed_of (cs : cstyle) : pushed :=
+      mkpushed (match ws_val (c_colour (cs_core cs)) with Some _ => true | None => false end)
+               (match ws_val (c_bg (cs_core cs)) with Some _ => true | None => false end)
+               (match wsm_of cs with Some _ => true | None => false end)
+               (cs_internal_pre cs).
+
+    Lemma h_g_style cs m : h_style cs (g_style cs m) = m.
+    Proof.
+      unfold h_style, g_style, g_pre, h_pre, g_ws, h_ws, g_col, h_col.
+      destruct m as [w o a f p wsk].
+      destruct (cs_internal_pre cs); destruct (wsm_of cs);
+        destruct (ws_val (c_bg (cs_core cs))) as [[[r1 g1] b1]|];
+        destruct (ws_val (c_colour (cs_core cs))) as [[[r2 g2] b2]|];
+        destruct (d_colours d);
+        unfold m_pre_dec, m_pre_inc, m_ws_pop, m_ws_push, m_pop, m_push; cbn;
+        rewrite ?removelast_last; f_equal; lia.
+    Qed.
+
+    Lemma mono_g_col mk o : mono (g_col mk o).
+    Proof.
+      intros m H. unfold g_col. destruct o as [[[r g] b]|]; [|exact H].
+      destruct (d_colours d); [apply mono_push|]; exact H.
+    Qed.
+
+    Lemma mono_g_style cs : mono (g_style cs).
+    Proof.
+      unfold g_style. intros m H.
+      assert (H2 : Qext (m_ann (g_col ABg (ws_val (c_bg (cs_core cs)))
+                                  (g_col AColour (ws_val (c_colour (cs_core cs))) m)))).
+      { apply mono_g_col, mono_g_col, H. }
+      unfold g_pre, g_ws. destruct (cs_internal_pre cs); destruct (wsm_of cs); exact H2.
+    Qed.
+
+    (* steps that only change the meta part (no premise needed for the tags) *)
+    Definition stB (g : meta -> meta) (st st' : rstate) : Prop :=
+      forall s rest, stack st = s :: rest ->
+        exists s', stack st' = s' :: rest /\ meta_of s' = g (meta_of s) /\ (sub_Q s -> sub_Q s').
+
+    Lemma stB_refl st : stB idm st st.
+    Proof. intros s rest E. exists s. auto. Qed.
+    Lemma stB_comp g1 g2 a b c : stB g1 a b -> stB g2 b c -> stB (fun m => g2 (g1 m)) a c.
+    Proof.
+      intros H1 H2 s rest Es. destruct (H1 s rest Es) as (s1 & E1 & M1 & Q1).
+      destruct (H2 s1 rest E1) as (s2 & E2 & M2 & Q2). exists s2. split; [exact E2|].
+      split; [rewrite M2, M1; reflexivity|auto].
+    Qed.
+    Lemma stB_stT P g a b : stB g a b -> stT P g a b.
+    Proof. intros H s rest Es. destruct (H s rest Es) as (s1 & E1 & M1 & Q1). exists s1. auto. Qed.
+    Lemma with_top_B g f st st' :
+      (forall s s', f s = Ok s' -> meta_of s' = g (meta_of s) /\ (sub_Q s -> sub_Q s')) ->
+      with_top st f = Ok st' -> stB g st st'.
+    Proof.
+      intros Hop H s rest Es. destruct (with_top_inv _ _ _ H) as (s0 & rest0 & s' & Es0 & Ef & ->).
+      rewrite Es in Es0. injection Es0 as <- <-. destruct (Hop _ _ Ef) as [M Qp].
+      exists s'. cbn [stack]. auto.
+    Qed.
+    Lemma with_top'_B g (f : subr -> subr) st st' :
+      (forall s, meta_of (f s) = g (meta_of s)) ->
+      (forall s, slines (f s) = slines s /\ pending_frags (f s) = pending_frags s /\
+                 wrapping (f s) = wrapping s) ->
+      with_top' st f = Ok st' -> stB g st st'.
+    Proof.
+      intros Hm Hb. unfold with_top'. apply with_top_B. intros s s' H. ok_inv H.
+      split; [apply Hm|]. destruct (Hb s) as (x & y & z). apply sub_Q_body; assumption.
+    Qed.
+
+    Lemma apply_style_B st cs st1 p :
+      apply_style d st cs = Ok (st1, p) -> p = pushed_of cs /\ stB (g_style cs) st st1.
+    Proof.
+      intros H. unfold apply_style in H.
+      bind_inv H sa H1. bind_inv H sb H2. bind_inv H sc H3. bind_inv H se H4.
+      injection H as <- <-. split; [reflexivity|].
+      assert (T1 : stB (g_col AColour (ws_val (c_colour (cs_core cs)))) st sa).
+      { destruct (ws_val (c_colour (cs_core cs))) as [[[r g] b]|].
+        - eapply with_top'_B; [| |exact H1]; intros s.
+          + unfold push_colour, g_col. destruct (d_colours d); reflexivity.
+          + unfold push_colour. destruct (d_colours d); auto.
+        - ok_inv H1. apply stB_refl. }
+      assert (T2 : stB (g_col ABg (ws_val (c_bg (cs_core cs)))) sa sb).
+      { destruct (ws_val (c_bg (cs_core cs))) as [[[r g] b0]|].
+        - eapply with_top'_B; [| |exact H2]; intros s.
+          + unfold push_bgcolour, g_col. destruct (d_colours d); reflexivity.
+          + unfold push_bgcolour. destruct (d_colours d); auto.
+        - ok_inv H2. apply stB_refl. }
+      assert (T3 : stB (g_ws (wsm_of cs)) sb sc).
+      { fold (wsm_of cs) in H3. destruct (wsm_of cs) as [m|].
+        - eapply with_top'_B; [| |exact H3]; intros s; [reflexivity|auto].
+        - ok_inv H3. apply stB_refl. }
+      assert (T4 : stB (g_pre (cs_internal_pre cs)) sc se).
+      { destruct (cs_internal_pre cs).
+        - eapply with_top'_B; [| |exact H4]; intros s; [reflexivity|auto].
+        - ok_inv H4. apply stB_refl. }
+      unfold g_style.
+      exact (stB_comp _ _ _ _ _ (stB_comp _ _ _ _ _ (stB_comp _ _ _ _ _ T1 T2) T3) T4).
+    Qed.
+
+    Lemma apply_style_T P st cs st1 p :
+      apply_style d st cs = Ok (st1, p) -> p = pushed_of cs /\ stT P (g_style cs) st st1.
+    Proof.
+      intros H. destruct (apply_style_B _ _ _ _ H) as [E B]. split; [exact E|apply stB_stT, B].
+    Qed.
+
+    Lemma unwind_B cs st st' : unwind d (pushed_of cs) st = Ok st' -> stB (h_style cs) st st'.
+    Proof.
+      intros H. unfold unwind in H. cbn [pushed_of p_bg p_colour p_ws p_pre] in H.
+      bind_inv H sa H1. bind_inv H sb H2. bind_inv H sc H3.
+      assert (T1 : stB (h_col (ws_val (c_bg (cs_core cs)))) st sa).
+      { destruct (ws_val (c_bg (cs_core cs))) as [x|].
+        - eapply with_top'_B; [| |exact H1]; intros s.
+          + unfold pop_bgcolour, pop_colour, h_col. destruct (d_colours d); reflexivity.
+          + unfold pop_bgcolour, pop_colour. destruct (d_colours d); auto.
+        - ok_inv H1. apply stB_refl. }
+      assert (T2 : stB (h_col (ws_val (c_colour (cs_core cs)))) sa sb).
+      { destruct (ws_val (c_colour (cs_core cs))) as [x|].
+        - eapply with_top'_B; [| |exact H2]; intros s.
+          + unfold pop_colour, h_col. destruct (d_colours d); reflexivity.
+          + unfold pop_colour. destruct (d_colours d); auto.
+        - ok_inv H2. apply stB_refl. }
+      assert (T3 : stB (h_ws (wsm_of cs)) sb sc).
+      { destruct (wsm_of cs) as [m|].
+        - eapply with_top'_B; [| |exact H3]; intros s; [reflexivity|auto].
+        - ok_inv H3. apply stB_refl. }
+      assert (T4 : stB (h_pre (cs_internal_pre cs)) sc st').
+      { destruct (cs_internal_pre cs).
+        - eapply with_top_B; [|exact H]. intros s s' Hp. unfold pop_preformat in Hp.
+          destruct (0 <? pre_depth s); [|discriminate]. ok_inv Hp. split; [reflexivity|].
+          apply sub_Q_body; reflexivity.
+        - ok_inv H. apply stB_refl. }
+      unfold h_style.
+      exact (stB_comp _ _ _ _ _ (stB_comp _ _ _ _ _ (stB_comp _ _ _ _ _ T1 T2) T3) T4).
+    Qed.
+
+    Lemma unwind_T P cs st st' : unwind d (pushed_of cs) st = Ok st' -> stT P (h_style cs) st st'.
+    Proof. intros H. apply stB_stT, unwind_B, H. Qed.
+
+    Lemma styled_T P st0 sty st p stB_ st' :
+      apply_style d st0 sty = Ok (st, p) -> stT P idm st stB_ -> unwind d p stB_ = Ok st' ->
+      stT P idm st0 st'.
+    Proof.
+      intros Ha Hb Hu. destruct (apply_style_T P _ _ _ _ Ha) as [-> Ta].
+      pose proof (unwind_T P _ _ _ Hu) as Tu.
+      eapply (stT_bracket P (g_style sty) (h_style sty));
+        [apply mono_g_style|apply h_g_style|exact Ta|exact Hb|exact Tu].
+    Qed.
+    (* ---- nodes ---- *)
+    Definition node_T (n : rnode) : Prop :=
+      forall st st', render_node d mw n st = Ok st' -> stT True idm st st'.
+
+    Lemma kids_T cs st st' :
+      Forall node_T cs ->
+      fold_left (fun acc c => do s <- acc; render_node d mw c s) cs (Ok st) = Ok st' ->
+      stT True idm st st'.
+    Proof.
+      intros HF H.
+      apply (fold_bind_inv (fun a => stT True idm st a) (render_node d mw) cs) with (a := st);
+        [|apply stT_refl|exact H].
+      intros c Hc a a' Ra Hr. eapply stT_id_trans; [exact Ra|].
+      rewrite Forall_forall in HF. apply (HF c Hc a a' Hr).
+    Qed.
+
+    Lemma m_pop_push a m : m_pop (m_push a m) = m.
+    Proof. destruct m. unfold m_pop, m_push. cbn. rewrite removelast_last. reflexivity. Qed.
+
+    Lemma strike_inv a m : m_pop (m_filt_dec (m_filt_inc (m_push a m))) = m.
+    Proof.
+      destruct m as [w o an f p wsk]. unfold m_filt_inc, m_push.
+      cbn [m_o m_w m_ann m_filt m_pre m_ws].
+      destruct (o_strike o) eqn:E; unfold m_filt_dec; cbn [m_o m_w m_ann m_filt m_pre m_ws];
+        rewrite E; unfold m_pop; cbn [m_o m_w m_ann m_filt m_pre m_ws Nat.pred];
+        rewrite removelast_last; reflexivity.
+    Qed.
+
+    (* start ... children ... end *)
+    Lemma bracket_T g h (f1 f2 : subr -> res subr) cs st1 a b c :
+      mono g -> (forall m, h (g m) = m) -> opT True g f1 -> opT True h f2 -> Forall node_T cs ->
+      with_top st1 f1 = Ok a ->
+      fold_left (fun acc c => do s <- acc; render_node d mw c s) cs (Ok a) = Ok b ->
+      with_top b f2 = Ok c -> stT True idm st1 c.
+    Proof.
+      intros Hm Hinv O1 O2 HF H1 H2 H3.
+      eapply (stT_bracket True g h); [exact Hm|exact Hinv| | |].
+      - eapply with_top_T; eassumption.
+      - eapply kids_T; eassumption.
+      - eapply with_top_T; eassumption.
+    Qed.
+
+    (* a nested sub-renderer: it starts with the annotation stack of its parent, no strikeout
+       filter, no preformat depth and the default white-space mode; after the children it has
+       the same meta part again; only tags extending the parent's stack are stored in it *)
+    Lemma scope_T st tp w st2 sub st3 :
+      top st = Ok tp -> stT True idm (push_sub st (new_sub_renderer tp w)) st2 ->
+      pop_sub st2 = Ok (sub, st3) ->
+      stack st3 = stack st /\ meta_of sub = meta_of (new_sub_renderer tp w) /\
+      (Qext (ann_stack tp) -> sub_Q sub).
+    Proof.
+      intros Ht H Hp.
+      destruct (H (new_sub_renderer tp w) (stack st) eq_refl) as (s' & E & M & Qp).
+      unfold pop_sub in Hp. rewrite E in Hp. injection Hp as <- <-. cbn [stack].
+      split; [reflexivity|]. split; [exact M|]. intros Hx.
+      apply Qp; [exact I|exact Hx|apply new_sub_renderer_Q].
+    Qed.
+
+    Lemma prefixed_T st tp w st2 sub st3 stz :
+      top st = Ok tp ->
+      stT True idm (push_sub st (new_sub_renderer tp w)) st2 ->
+      pop_sub st2 = Ok (sub, st3) ->
+      ((Qext (ann_stack tp) -> sub_Q sub) -> stT (Qext (ann_stack tp)) idm st3 stz) ->
+      stT True idm st stz.
+    Proof.
+      intros Ht H2 Hp Hrest. destruct (top_inv _ _ Ht) as [rest0 E0].
+      destruct (scope_T _ _ _ _ _ _ Ht H2 Hp) as (Es & _ & Hq).
+      apply (stT_discharge tp rest0 idm st stz E0).
+      apply (stT_stack_eq _ _ st3 st); [symmetry; exact Es|apply Hrest, Hq].
+    Qed.
+
+    Lemma cells_loop_T : forall cells wsl s2 subs r tp rest,
+      Forall (fun c => Forall node_T (cell_content c)) cells ->
+      stack s2 = tp :: rest ->
+      cells_loop d mw cells wsl s2 subs = Ok r ->
+      stack (fst r) = stack s2 /\
+      (Qext (ann_stack tp) -> Forall sub_Q subs -> Forall sub_Q (snd r)).
+    Proof.
+      induction cells as [|[n content csty] cells IH]; intros wsl s2 subs r tp rest HF E H;
+        cbn [cells_loop] in H.
+      - ok_inv H. cbn [fst snd]. auto.
+      - inversion HF as [|? ? HF1 HF2]; subst. cbn [cell_content] in HF1.
+        destruct wsl as [|[w|] wsl].
+        + ok_inv H. cbn [fst snd]. auto.
+        + bind_inv H tp2 Htp. bind_inv H apc Hap. destruct apc as [s4 pcell].
+          bind_inv H s5 H5. bind_inv H s6 H6. bind_inv H pp Hpp. destruct pp as [sub s7].
+          assert (Etp : tp2 = tp).
+          { unfold top in Htp. rewrite E in Htp. injection Htp as <-. reflexivity. }
+          pose proof (styled_T True _ _ _ _ _ _ Hap (kids_T _ _ _ HF1 H5) H6) as T.
+          destruct (scope_T _ _ _ _ _ _ Htp T Hpp) as (Es & _ & Hq).
+          destruct (IH wsl s7 (subs ++ [sub]) r tp rest HF2) as [A B];
+            [rewrite Es; exact E|exact H|].
+          split; [rewrite A; exact Es|]. intros Hx Hs. apply B; [exact Hx|].
+          apply Forall_app. split; [exact Hs|]. constructor; [|constructor].
+          apply Hq. rewrite Etp. exact Hx.
+        + apply (IH wsl s2 subs r tp rest HF2 E H).
+    Qed.
+
+    Lemma row_body_T vr cw r s s' :
+      Forall (fun c => Forall node_T (cell_content c)) (row_cells r) ->
+      row_body d mw vr cw r s = Ok s' -> stT True idm s s'.
+    Proof.
+      intros HF H. destruct r as [rcells rstyle]. cbn [row_cells] in HF. unfold row_body in H.
+      bind_inv H apr Hap. destruct apr as [s1 prow]. bind_inv H cws Hcws. bind_inv H rr Hrr.
+      destruct rr as [s8 subs]. bind_inv H s9 H9.
+      eapply styled_T; [exact Hap| |exact H].
+      intros tp1 rest1 E1.
+      destruct (cells_loop_T _ _ _ _ _ tp1 rest1 HF E1 Hrr) as [Est Hq]. cbn [fst snd] in Est, Hq.
+      assert (T : stT (Qext (ann_stack tp1)) idm s8 s9).
+      { destruct vr.
+        - eapply with_top_T; [apply append_vert_row_T|exact H9].
+          intros Hx. apply Hq; [exact Hx|constructor].
+        - destruct (existsb (fun c => negb (sub_empty c)) subs).
+          + eapply with_top_T; [apply append_columns_T|exact H9].
+            intros Hx. apply Hq; [exact Hx|constructor].
+          + ok_inv H9. apply stT_refl. }
+      assert (E8 : stack s8 = tp1 :: rest1) by (rewrite Est; exact E1).
+      exact (stT_discharge tp1 rest1 idm s8 s9 E8 T tp1 rest1 E8).
+    Qed.
+
+    Ltac start H sz ap st1 ps Hap :=
+      let Hsz := fresh "Hsz" in
+      bind_inv H sz Hsz; bind_inv H ap Hap; destruct ap as [st1 ps].
+
+    Lemma node_T_all : forall n, node_T n.
+    Proof.
+      apply rnode_ind'. intros i sty IH st st' H.
+      destruct i; cbn [direct_kids] in IH; cbn [render_node rn_info rn_style] in H.
+      - (* IText *)
+        start H sz ap st1 ps Hap. bind_inv H st2 H2.
+        eapply styled_T; [exact Hap| |exact H].
+        unfold inline_text in H2. eapply with_top_T; [apply add_inline_text_T|exact H2].
+      - (* IContainer *)
+        start H sz ap st1 ps Hap. bind_inv H st2 H2.
+        eapply styled_T; [exact Hap| |exact H]. eapply kids_T; eassumption.
+      - (* ILink *)
+        start H sz ap st1 ps Hap.
+        bind_inv H st2 H2. bind_inv H st3 H3. bind_inv H st4 H4. bind_inv H tp H5. bind_inv H st5 H6.
+        eapply styled_T; [exact Hap| |exact H].
+        eapply stT_id_trans; [apply (stT_same_stack True st1 (mkrst (stack st1) (links st1 ++ [href]))); reflexivity|].
+        eapply stT_id_trans.
+        + eapply (bracket_T (m_push (snd (d_link_start d href))) m_pop
+                            (fun s => sub_start_link d s href) (sub_end_link d));
+            [apply mono_push|apply m_pop_push|exact (start_deco_T True (d_link_start d href))
+            |exact (end_deco_T True (d_link_end d))|exact IH|exact H2|exact H3|exact H4].
+        + destruct (o_footnotes (sopts tp)).
+          * unfold inline_text in H6. eapply with_top_T; [apply add_inline_text_T|exact H6].
+          * ok_inv H6. apply stT_refl.
+      - (* IEm *)
+        start H sz ap st1 ps Hap. bind_inv H a H1. bind_inv H b H2. bind_inv H c H3.
+        eapply styled_T; [exact Hap| |exact H].
+        eapply (bracket_T (m_push (snd (d_em_start d))) m_pop (start_emphasis d) (end_emphasis d));
+          [apply mono_push|apply m_pop_push|exact (start_deco_T True (d_em_start d))
+          |exact (end_deco_T True (d_em_end d))|exact IH|exact H1|exact H2|exact H3].
+      - (* IStrong *)
+        start H sz ap st1 ps Hap. bind_inv H a H1. bind_inv H b H2. bind_inv H c H3.
+        eapply styled_T; [exact Hap| |exact H].
+        eapply (bracket_T (m_push (snd (d_strong_start d))) m_pop (start_strong d) (end_strong d));
+          [apply mono_push|apply m_pop_push|exact (start_deco_T True (d_strong_start d))
+          |exact (end_deco_T True (d_strong_end d))|exact IH|exact H1|exact H2|exact H3].
+      - (* IStrikeout *)
+        start H sz ap st1 ps Hap. bind_inv H a H1. bind_inv H b H2. bind_inv H c H3.
+        eapply styled_T; [exact Hap| |exact H].
+        eapply (bracket_T (fun m => m_filt_inc (m_push (snd (d_strike_start d)) m))
+                          (fun m => m_pop (m_filt_dec m)) (start_strikeout d) (end_strikeout d));
+          [apply mono_comp; [apply mono_push|apply mono_filt_inc]|intros m; apply strike_inv
+          |apply start_strikeout_T|apply end_strikeout_T|exact IH|exact H1|exact H2|exact H3].
+      - (* ICode *)
+        start H sz ap st1 ps Hap. bind_inv H a H1. bind_inv H b H2. bind_inv H c H3.
+        eapply styled_T; [exact Hap| |exact H].
+        eapply (bracket_T (m_push (snd (d_code_start d))) m_pop (start_code d) (end_code d));
+          [apply mono_push|apply m_pop_push|exact (start_deco_T True (d_code_start d))
+          |exact (end_deco_T True (d_code_end d))|exact IH|exact H1|exact H2|exact H3].
+      - (* IImg *)
+        start H sz ap st1 ps Hap. bind_inv H st2 H2.
+        eapply styled_T; [exact Hap| |exact H].
+        eapply with_top_T; [apply add_image_T|exact H2].
+      - (* IBlock *)
+        start H sz ap st1 ps Hap. bind_inv H a H1. bind_inv H b H2. bind_inv H c H3.
+        eapply styled_T; [exact Hap| |exact H].
+        eapply (bracket_T idm idm start_block (fun s => Ok (end_block s)));
+          [apply mono_idm|reflexivity|apply start_block_T|apply end_block_T|exact IH
+          |exact H1|exact H2|exact H3].
+      - (* IHeader *)
+        start H sz ap st1 ps Hap.
+        destruct (negb (swidth (d_header_prefix d level) =? e_prefix sz)); [discriminate|].
+        bind_inv H tp Htp. bind_inv H w Hw. bind_inv H st2 H2. bind_inv H pp Hpp.
+        destruct pp as [sub st3]. bind_inv H st4 H4. bind_inv H st5 H5. bind_inv H st6 H6.
+        eapply styled_T; [exact Hap| |exact H].
+        eapply prefixed_T; [exact Htp|eapply kids_T; [exact IH|exact H2]|exact Hpp|]. intros Hq.
+        eapply stT_id_trans; [eapply with_top_T; [apply start_block_T|exact H4]|].
+        eapply stT_id_trans; [eapply with_top_T; [apply append_subrender_T, Hq|exact H5]|].
+        eapply with_top'_T; [apply end_block_T|exact H6].
+      - (* IDiv *)
+        start H sz ap st1 ps Hap. bind_inv H a H1. bind_inv H b H2. bind_inv H c H3.
+        eapply styled_T; [exact Hap| |exact H].
+        eapply (bracket_T idm idm new_line new_line);
+          [apply mono_idm|reflexivity|apply new_line_T|apply new_line_T|exact IH
+          |exact H1|exact H2|exact H3].
+      - (* IBlockQuote *)
+        start H sz ap st1 ps Hap.
+        destruct (negb (e_prefix sz =? swidth (d_quote_prefix d))); [discriminate|].
+        bind_inv H iw Hiw.
+        bind_inv H tp Htp. bind_inv H w Hw. bind_inv H st2 H2. bind_inv H pp Hpp.
+        destruct pp as [sub st3]. bind_inv H st4 H4. bind_inv H st5 H5. bind_inv H st6 H6.
+        eapply styled_T; [exact Hap| |exact H].
+        eapply prefixed_T; [exact Htp|eapply kids_T; [exact IH|exact H2]|exact Hpp|]. intros Hq.
+        eapply stT_id_trans; [eapply with_top_T; [apply start_block_T|exact H4]|].
+        eapply stT_id_trans; [eapply with_top_T; [apply append_subrender_T, Hq|exact H5]|].
+        eapply with_top'_T; [apply end_block_T|exact H6].
+      - (* IUl *)
+        start H sz ap st1 ps Hap. bind_inv H st2 H2.
+        eapply styled_T; [exact Hap| |exact H].
+        revert H2.
+        apply (fold_bind_inv (fun a => stT True idm st1 a)
+                 (fun item s =>
+                    do inner_width <- usub 22 (e_min sz) (swidth (d_ul_prefix d));
+                    do tp <- top s;
+                    do w <- width_minus tp (swidth (d_ul_prefix d)) inner_width;
+                    do s2 <- render_node d mw item (push_sub s (new_sub_renderer tp w));
+                    do pp <- pop_sub s2;
+                    let '(sub, s3) := pp in
+                    with_top s3 (fun t => append_subrender t sub (d_ul_prefix d)
+                       (repeat_chr (spacel L_prefix) (N.to_nat (swidth (d_ul_prefix d))))))
+                 cs); [|apply stT_refl].
+        intros item Hitem a a' Ra Hstep. eapply stT_id_trans; [exact Ra|].
+        bind_inv Hstep iw Hiw. bind_inv Hstep tp Htp. bind_inv Hstep w Hw.
+        bind_inv Hstep s2 Hs2. bind_inv Hstep pp Hpp. destruct pp as [sub s3].
+        rewrite Forall_forall in IH.
+        eapply prefixed_T; [exact Htp|apply (IH item Hitem), Hs2|exact Hpp|]. intros Hq.
+        eapply with_top_T; [apply append_subrender_T, Hq|exact Hstep].
+      - (* IOl *)
+        start H sz ap st1 ps Hap. bind_inv H r Hr.
+        eapply styled_T; [exact Hap| |exact H].
+        set (pw := N.max (swidth (d_ol_prefix d start))
+                         (swidth (d_ol_prefix d (isat64 (isat64 (start + Z.of_nat (length cs)) - 1))))) in *.
+        assert (Hr' : fold_left (fun acc item => do si <- acc; ol_step d mw sz pw item si) cs
+                                (Ok (st1, start)) = Ok r) by exact Hr.
+        revert Hr'.
+        apply (fold_bind_inv (fun a => stT True idm st1 (fst a)) (ol_step d mw sz pw) cs);
+          [|apply stT_refl].
+        intros item Hitem [s i0] a' Ra Hstep. cbn [fst] in Ra. eapply stT_id_trans; [exact Ra|].
+        unfold ol_step in Hstep.
+        bind_inv Hstep iw Hiw. bind_inv Hstep tp Htp. bind_inv Hstep w Hw.
+        bind_inv Hstep s2 Hs2. bind_inv Hstep pp Hpp. destruct pp as [sub s3].
+        bind_inv Hstep s4 H4. ok_inv Hstep. cbn [fst].
+        rewrite Forall_forall in IH.
+        eapply prefixed_T; [exact Htp|apply (IH item Hitem), Hs2|exact Hpp|]. intros Hq.
+        eapply with_top_T; [apply append_subrender_T, Hq|exact H4].
+      - (* IDl *)
+        start H sz ap st1 ps Hap. bind_inv H st2 H2. bind_inv H st3 H3.
+        eapply styled_T; [exact Hap| |exact H].
+        eapply stT_id_trans; [eapply with_top_T; [apply start_block_T|exact H2]|].
+        eapply kids_T; eassumption.
+      - (* IDt *)
+        start H sz ap st1 ps Hap. bind_inv H st2 H2.
+        bind_inv H a H1. bind_inv H b H3. bind_inv H c H4.
+        eapply styled_T; [exact Hap| |exact H].
+        eapply stT_id_trans; [eapply with_top_T; [apply new_line_T|exact H2]|].
+        eapply (bracket_T (m_push (snd (d_em_start d))) m_pop (start_emphasis d) (end_emphasis d));
+          [apply mono_push|apply m_pop_push|exact (start_deco_T True (d_em_start d))
+          |exact (end_deco_T True (d_em_end d))|exact IH|exact H1|exact H3|exact H4].
+      - (* IDd *)
+        start H sz ap st1 ps Hap. bind_inv H iw Hiw.
+        bind_inv H tp Htp. bind_inv H w Hw. bind_inv H st2 H2. bind_inv H pp Hpp.
+        destruct pp as [sub st3]. bind_inv H st4 H4.
+        eapply styled_T; [exact Hap| |exact H].
+        eapply prefixed_T; [exact Htp|eapply kids_T; [exact IH|exact H2]|exact Hpp|]. intros Hq.
+        eapply with_top_T; [apply append_subrender_T, Hq|exact H4].
+      - (* IBreak *)
+        start H sz ap st1 ps Hap. bind_inv H st2 H2.
+        eapply styled_T; [exact Hap| |exact H].
+        eapply with_top_T; [apply new_line_hard_T|exact H2].
+      - (* ITable *)
+        start H sz ap st1 ps Hap.
+        bind_inv H col_sizes Hcs. bind_inv H tp Htp.
+        set (vr := o_raw (sopts tp)
+                   || ((swidth_ tp <? sumN (map e_min col_sizes) + (N.of_nat (length col_sizes) - 1))
+                       || (swidth_ tp =? 0))) in *.
+        bind_inv H col_widths Hcw. bind_inv H st2 H2. bind_inv H st3 H3. bind_inv H st_rows Hrows.
+        eapply styled_T; [exact Hap| |exact H].
+        eapply stT_id_trans; [eapply with_top_T; [apply start_block_T|exact H2]|].
+        eapply stT_id_trans.
+        { match type of H3 with (if ?c then _ else _) = _ => destruct c end.
+          - eapply with_top_T; [apply add_horizontal_border_width_T|exact H3].
+          - ok_inv H3. apply stT_refl. }
+        assert (Hrows' : fold_left (fun acc r => do s <- acc; row_body d mw vr col_widths r s) rows
+                                   (Ok st3) = Ok st_rows) by exact Hrows.
+        revert Hrows'.
+        apply (fold_bind_inv (fun a => stT True idm st3 a) (row_body d mw vr col_widths) rows);
+          [|apply stT_refl].
+        intros r Hr a a' Ra Hstep. eapply stT_id_trans; [exact Ra|].
+        apply Forall_flat_map in IH. rewrite Forall_forall in IH. specialize (IH r Hr).
+        unfold row_kids in IH. apply Forall_flat_map in IH.
+        eapply row_body_T; eassumption.
+      - (* ITableBody *) bind_inv H sz Hsz. bind_inv H ap Hap. destruct ap. discriminate.
+      - (* ITableRow *) bind_inv H sz Hsz. bind_inv H ap Hap. destruct ap. discriminate.
+      - (* ITableCell *) bind_inv H sz Hsz. bind_inv H ap Hap. destruct ap. discriminate.
+      - (* IFragStart *)
+        start H sz ap st1 ps Hap. bind_inv H st2 H2.
+        eapply styled_T; [exact Hap| |exact H].
+        eapply with_top'_T; [apply record_frag_start_T|exact H2].
+      - (* IListItem *)
+        start H sz ap st1 ps Hap. bind_inv H a H1. bind_inv H b H2. bind_inv H c H3.
+        eapply styled_T; [exact Hap| |exact H].
+        eapply (bracket_T idm idm start_block (fun s => Ok (end_block s)));
+          [apply mono_idm|reflexivity|apply start_block_T|apply end_block_T|exact IH
+          |exact H1|exact H2|exact H3].
+      - (* ISup *)
+        start H sz ap st1 ps Hap.
+        destruct (sup_digits cs) as [digitstr|].
+        + bind_inv H st2 H2. eapply styled_T; [exact Hap| |exact H].
+          unfold inline_text in H2. eapply with_top_T; [apply add_inline_text_T|exact H2].
+        + bind_inv H a H1. bind_inv H b H2. bind_inv H c H3.
+          eapply styled_T; [exact Hap| |exact H].
+          eapply (bracket_T (m_push (snd (d_sup_start d))) m_pop
+                            (start_superscript d) (end_superscript d));
+            [apply mono_push|apply m_pop_push|exact (start_deco_T True (d_sup_start d))
+            |exact (end_deco_T True (d_sup_end d))|exact IH|exact H1|exact H2|exact H3].
+    Qed.
+  End RenderT.
 End TagInv.
+
+(* ================================================================== *)
+(* 5. Main theorems                                                     *)
+(* ================================================================== *)
+
+(* t extends base *)
+Definition ext (base t : tag) : Prop := exists suf, t = base ++ suf.
+
+(* ------------------------------------------------------------------ *)
+(* (1) BALANCE: no annotation (white-space mode, preformat depth, strikeout filter) leaks
+   past the end of its element.  Rendering a node leaves every sub-renderer below the top one
+   untouched (in particular the depth of the stack is restored) and restores the meta part of
+   the top one: width, options, annotation stack, strikeout-filter depth, preformat depth,
+   white-space mode stack.  No hypothesis: for every render tree, decorator, state. *)
+Theorem render_node_balanced : forall d mw n st st' s rest,
+  render_node d mw n st = Ok st' -> stack st = s :: rest ->
+  exists s', stack st' = s' :: rest /\ meta_of s' = meta_of s.
+Proof.
+  intros d mw n st st' s rest H E.
+  destruct (node_T_all (fun _ => True) I d mw n st st' H s rest E) as (s' & E' & M & _).
+  exists s'. auto.
+Qed.
+Print Assumptions render_node_balanced.
+
+Corollary render_node_balanced_fields : forall d mw n st st' s rest,
+  render_node d mw n st = Ok st' -> stack st = s :: rest ->
+  exists s', stack st' = s' :: rest /\
+    ann_stack s' = ann_stack s /\ filter_depth s' = filter_depth s /\
+    pre_depth s' = pre_depth s /\ ws_stack s' = ws_stack s /\
+    swidth_ s' = swidth_ s /\ sopts s' = sopts s.
+Proof.
+  intros d mw n st st' s rest H E.
+  destruct (render_node_balanced d mw n st st' s rest H E) as (s' & E' & M).
+  exists s'. split; [exact E'|]. unfold meta_of in M. injection M as M1 M2 M3 M4 M5 M6. repeat split; assumption.
+Qed.
+
+(* the same for a list of nodes (render_kids) *)
+Theorem render_kids_balanced : forall d mw cs st st' s rest,
+  fold_left (fun acc c => do s <- acc; render_node d mw c s) cs (Ok st) = Ok st' ->
+  stack st = s :: rest ->
+  exists s', stack st' = s' :: rest /\ meta_of s' = meta_of s.
+Proof.
+  intros d mw cs st st' s rest H E.
+  assert (HF : Forall (node_T (fun _ => True) d mw) cs).
+  { apply Forall_forall. intros c _. apply node_T_all. exact I. }
+  destruct (kids_T (fun _ => True) d mw cs st st' HF H s rest E) as (s' & E' & M & _).
+  exists s'. auto.
+Qed.
+Print Assumptions render_kids_balanced.
+
+(* Nested sub-renderers (headings, block quotes, list items, definitions, table cells): a new
+   sub-renderer starts with the annotation stack of its parent, but with NO strikeout filter,
+   preformat depth 0 and the default white-space mode (see FINDINGS below) ... *)
+Lemma new_sub_renderer_meta : forall s w,
+  meta_of (new_sub_renderer s w) = mkmeta w (sopts s) (ann_stack s) O 0 [].
+Proof. reflexivity. Qed.
+
+(* ... and when it is popped after its children it has exactly that meta part again, and the
+   stack below it is what it was. *)
+Theorem sub_renderer_balanced : forall d mw cs st tp w st2 sub st3,
+  top st = Ok tp ->
+  fold_left (fun acc c => do s <- acc; render_node d mw c s) cs
+            (Ok (push_sub st (new_sub_renderer tp w))) = Ok st2 ->
+  pop_sub st2 = Ok (sub, st3) ->
+  stack st3 = stack st /\ meta_of sub = mkmeta w (sopts tp) (ann_stack tp) O 0 [].
+Proof.
+  intros d mw cs st tp w st2 sub st3 Ht H Hp.
+  destruct (render_kids_balanced d mw cs _ st2 (new_sub_renderer tp w) (stack st) H eq_refl)
+    as (s' & E & M).
+  unfold pop_sub in Hp. rewrite E in Hp. injection Hp as <- <-. cbn [stack]. auto.
+Qed.
+Print Assumptions sub_renderer_balanced.
+
+(* The whole tree: the final sub-renderer has an empty annotation stack, no filter, preformat
+   depth 0, no white-space mode, the requested width and options. *)
+Theorem render_tree_balanced : forall d mw o width tree s,
+  render_tree d mw o width tree = Ok s -> meta_of s = mkmeta width o [] O 0 [].
+Proof.
+  intros d mw o width tree s H. unfold render_tree in H. bind_inv H e He. bind_inv H st Hst.
+  destruct (render_node_balanced d mw tree _ st (sub_new width o) [] Hst eq_refl) as (s0 & E & M).
+  rewrite E in H. destruct (sub_finalise s0 (links st)) as [|l ls].
+  - ok_inv H. exact M.
+  - bind_inv H s1 H1. replace s with (fmt_links s1 (l :: ls)) by congruence.
+    rewrite meta_fmt_links. rewrite (meta_start_block _ _ H1). exact M.
+Qed.
+Print Assumptions render_tree_balanced.
+
+(* ------------------------------------------------------------------ *)
+(* (2) ENCLOSING ANNOTATIONS.  Q is any property of tags with Q [] (block padding made by
+   pad_block_width carries the empty tag unless a space tag is pending).  If every extension
+   of the annotation stack at entry satisfies Q and every tag stored in the top sub-renderer
+   (finished lines incl. borders, pending fragments, wrapping block: lines, word, pending
+   space tag) satisfies Q, then so does every tag stored in it afterwards. *)
+Theorem render_node_tags : forall (Q : tag -> Prop) d mw n st st' s rest,
+  Q [] ->
+  render_node d mw n st = Ok st' -> stack st = s :: rest ->
+  (forall x, Q (ann_stack s ++ x)) -> sub_Q Q s ->
+  exists s', stack st' = s' :: rest /\ meta_of s' = meta_of s /\ sub_Q Q s'.
+Proof.
+  intros Q d mw n st st' s rest Qnil H E Hx Hq.
+  destruct (node_T_all Q Qnil d mw n st st' H s rest E) as (s' & E' & M & Qp).
+  exists s'. split; [exact E'|]. split; [exact M|]. apply Qp; [exact I|exact Hx|exact Hq].
+Qed.
+Print Assumptions render_node_tags.
+
+Theorem render_kids_tags : forall (Q : tag -> Prop) d mw cs st st' s rest,
+  Q [] ->
+  fold_left (fun acc c => do s <- acc; render_node d mw c s) cs (Ok st) = Ok st' ->
+  stack st = s :: rest ->
+  (forall x, Q (ann_stack s ++ x)) -> sub_Q Q s ->
+  exists s', stack st' = s' :: rest /\ meta_of s' = meta_of s /\ sub_Q Q s'.
+Proof.
+  intros Q d mw cs st st' s rest Qnil H E Hx Hq.
+  assert (HF : Forall (node_T Q d mw) cs).
+  { apply Forall_forall. intros c _. apply node_T_all. exact Qnil. }
+  destruct (kids_T Q d mw cs st st' HF H s rest E) as (s' & E' & M & Qp).
+  exists s'. split; [exact E'|]. split; [exact M|]. apply Qp; [exact I|exact Hx|exact Hq].
+Qed.
+
+Lemma elem_Q_impl (Q Q' : tag -> Prop) e : (forall t, Q t -> Q' t) -> elem_Q Q e -> elem_Q Q' e.
+Proof. intros H. destruct e; cbn; auto. Qed.
+Lemma tl_Q_impl (Q Q' : tag -> Prop) l : (forall t, Q t -> Q' t) -> tl_Q Q l -> tl_Q Q' l.
+Proof. intros H. unfold tl_Q. apply Forall_impl. intros e. apply elem_Q_impl, H. Qed.
+Lemma sub_Q_impl (Q Q' : tag -> Prop) s : (forall t, Q t -> Q' t) -> sub_Q Q s -> sub_Q Q' s.
+Proof.
+  intros H (A & B & C). unfold sub_Q. split; [|split].
+  - revert A. apply Forall_impl. intros [l|b t]; cbn [rline_Q]; [apply tl_Q_impl, H|apply H].
+  - revert B. apply Forall_impl. intros e. apply elem_Q_impl, H.
+  - destruct (wrapping s) as [w|]; [|exact I]. cbn [owb_Q] in *.
+    destruct C as (C1 & C2 & C3 & C4). unfold wb_Q. repeat split.
+    + revert C1. apply Forall_impl. intros l. apply tl_Q_impl, H.
+    + apply (tl_Q_impl Q Q' _ H C2).
+    + revert C3. apply Forall_impl. intros e. apply elem_Q_impl, H.
+    + destruct (spacetag w); cbn [otag_Q] in *; auto.
+Qed.
+
+(* "old or new": whatever property Qold the stored tags had before, afterwards every stored
+   tag either has Qold, or is the empty padding tag, or extends the annotation stack at
+   entry (document text, decorator text, prefixes, borders, cell padding, separators). *)
+Corollary render_node_new_tags : forall (Qold : tag -> Prop) d mw n st st' s rest,
+  render_node d mw n st = Ok st' -> stack st = s :: rest -> sub_Q Qold s ->
+  exists s', stack st' = s' :: rest /\
+    sub_Q (fun t => Qold t \/ t = [] \/ ext (ann_stack s) t) s'.
+Proof.
+  intros Qold d mw n st st' s rest H E Hq.
+  destruct (render_node_tags (fun t => Qold t \/ t = [] \/ ext (ann_stack s) t)
+                             d mw n st st' s rest) as (s' & E' & _ & Q');
+    [right; left; reflexivity|exact H|exact E| | |exists s'; auto].
+  - intros x. right. right. exists x. reflexivity.
+  - revert Hq. apply sub_Q_impl. auto.
+Qed.
+Print Assumptions render_node_new_tags.
+
+Corollary render_kids_new_tags : forall (Qold : tag -> Prop) d mw cs st st' s rest,
+  fold_left (fun acc c => do s <- acc; render_node d mw c s) cs (Ok st) = Ok st' ->
+  stack st = s :: rest -> sub_Q Qold s ->
+  exists s', stack st' = s' :: rest /\
+    sub_Q (fun t => Qold t \/ t = [] \/ ext (ann_stack s) t) s'.
+Proof.
+  intros Qold d mw cs st st' s rest H E Hq.
+  destruct (render_kids_tags (fun t => Qold t \/ t = [] \/ ext (ann_stack s) t)
+                             d mw cs st st' s rest) as (s' & E' & _ & Q');
+    [right; left; reflexivity|exact H|exact E| | |exists s'; auto].
+  - intros x. right. right. exists x. reflexivity.
+  - revert Hq. apply sub_Q_impl. auto.
+Qed.
+
+(* the contents of a popped sub-renderer: only tags extending the parent's stack (or []) *)
+Corollary sub_renderer_tags : forall d mw cs st tp w st2 sub st3,
+  top st = Ok tp ->
+  fold_left (fun acc c => do s <- acc; render_node d mw c s) cs
+            (Ok (push_sub st (new_sub_renderer tp w))) = Ok st2 ->
+  pop_sub st2 = Ok (sub, st3) ->
+  sub_Q (fun t => t = [] \/ ext (ann_stack tp) t) sub.
+Proof.
+  intros d mw cs st tp w st2 sub st3 Ht H Hp.
+  destruct (render_kids_new_tags (fun _ => False) d mw cs _ st2 (new_sub_renderer tp w) (stack st)
+                                 H eq_refl) as (s' & E & Q').
+  { apply new_sub_renderer_Q. }
+  unfold pop_sub in Hp. rewrite E in Hp. injection Hp as <- <-.
+  revert Q'. apply sub_Q_impl. intros t [[]|[A|A]]; auto.
+Qed.
+
+(* ------------------------------------------------------------------ *)
+(* (2b) A text leaf: its characters get EXACTLY the annotation stack at entry plus the colour
+   annotations of the node's own style, plus Preformat(false) (first piece of a source line)
+   or Preformat(true) (continuation piece) when the preformat depth is positive. *)
+Definition col_anns (d : deco) (mk : N -> N -> N -> ann) (o : option (N * N * N)) : tag :=
+  match o with
+  | Some (r, g, b) => if d_colours d then [mk r g b] else []
+  | None => []
+  end.
+Definition style_anns (d : deco) (cs : cstyle) : tag :=
+  col_anns d AColour (ws_val (c_colour (cs_core cs))) ++ col_anns d ABg (ws_val (c_bg (cs_core cs))).
+
+Lemma g_style_ann d cs m : m_ann (g_style d cs m) = m_ann m ++ style_anns d cs.
+Proof.
+  unfold g_style, g_pre, g_ws, g_col, style_anns, col_anns.
+  destruct (cs_internal_pre cs); destruct (wsm_of cs);
+    destruct (ws_val (c_bg (cs_core cs))) as [[[r1 g1] b1]|];
+    destruct (ws_val (c_colour (cs_core cs))) as [[[r2 g2] b2]|];
+    destruct (d_colours d); cbn; rewrite ?app_nil_r, <- ?app_assoc; reflexivity.
+Qed.
+
+Lemma g_style_pre d cs m :
+  m_pre (g_style d cs m) = m_pre m + (if cs_internal_pre cs then 1 else 0).
+Proof.
+  unfold g_style, g_pre, g_ws, g_col.
+  destruct (cs_internal_pre cs); destruct (wsm_of cs);
+    destruct (ws_val (c_bg (cs_core cs))) as [[[r1 g1] b1]|];
+    destruct (ws_val (c_colour (cs_core cs))) as [[[r2 g2] b2]|];
+    destruct (d_colours d); cbn; lia.
+Qed.
+
+Theorem text_leaf_tags : forall (Qold : tag -> Prop) d mw t sty st st' s rest,
+  render_node d mw (RN (IText t) sty) st = Ok st' -> stack st = s :: rest -> sub_Q Qold s ->
+  let A := ann_stack s ++ style_anns d sty in
+  let inpre := 0 <? pre_depth s + (if cs_internal_pre sty then 1 else 0) in
+  exists s', stack st' = s' :: rest /\ meta_of s' = meta_of s /\
+    sub_Q (fun x => Qold x \/ x = [] \/
+                    x = (if inpre then A ++ [d_pre_first d] else A) \/
+                    x = (if inpre then A ++ [d_pre_cont d] else A)) s'.
+Proof.
+  intros Qold d mw t sty st st' s rest H E Hq A inpre.
+  set (Q' := fun x => Qold x \/ x = [] \/
+                      x = (if inpre then A ++ [d_pre_first d] else A) \/
+                      x = (if inpre then A ++ [d_pre_cont d] else A)).
+  assert (Qnil : Q' []) by (right; left; reflexivity).
+  cbn [render_node rn_info rn_style] in H.
+  bind_inv H sz Hsz. bind_inv H ap Hap. destruct ap as [st1 ps]. bind_inv H st2 H2.
+  destruct (apply_style_B Q' _ _ _ _ _ Hap) as [-> B1].
+  destruct (B1 s rest E) as (s1 & E1 & M1 & Q1).
+  unfold inline_text in H2. destruct (with_top_inv _ _ _ H2) as (x & r & s2 & Ex & Ef & ->).
+  rewrite E1 in Ex. injection Ex as <- <-.
+  assert (Ea : ann_stack s1 = A).
+  { change (m_ann (meta_of s1) = A). rewrite M1, g_style_ann. reflexivity. }
+  assert (Ep : (0 <? pre_depth s1) = inpre).
+  { change ((0 <? m_pre (meta_of s1)) = inpre). rewrite M1, g_style_pre. reflexivity. }
+  assert (Q2 : sub_Q Q' s2).
+  { eapply (add_inline_text_Q Q' Qnil d s1 t s2); [| | |exact Ef].
+    - apply Q1. revert Hq. apply sub_Q_impl. intros x Hx. left. exact Hx.
+    - unfold main_tag_of. rewrite Ep, Ea. right. right. left. reflexivity.
+    - unfold cont_tag_of. rewrite Ep, Ea. right. right. right. reflexivity. }
+  destruct (unwind_B Q' _ _ _ _ H s2 rest eq_refl) as (s3 & E3 & M3 & Q3).
+  exists s3. split; [exact E3|]. split; [|apply Q3, Q2].
+  rewrite M3, (meta_add_inline_text _ _ _ _ Ef), M1. apply h_g_style.
+Qed.
+Print Assumptions text_leaf_tags.
+
+(* ------------------------------------------------------------------ *)
+(* (2c) Inline elements: everything rendered for an <em>/<strong>/<s>/<code> element -- the
+   decorator's opening and closing text and all descendants, in whatever nested blocks or
+   table cells -- carries the stack at entry + the colours of the element's style + the
+   element's own annotation (or is block padding with the empty tag). *)
+Definition inline_ann (d : deco) (i : rinfo) : option (ann * list rnode) :=
+  match i with
+  | IEm cs => Some (snd (d_em_start d), cs)
+  | IStrong cs => Some (snd (d_strong_start d), cs)
+  | IStrikeout cs => Some (snd (d_strike_start d), cs)
+  | ICode cs => Some (snd (d_code_start d), cs)
+  | _ => None
+  end.
+
+Theorem inline_element_tags : forall (Qold : tag -> Prop) d mw i sty a cs st st' s rest,
+  inline_ann d i = Some (a, cs) ->
+  render_node d mw (RN i sty) st = Ok st' -> stack st = s :: rest -> sub_Q Qold s ->
+  exists s', stack st' = s' :: rest /\
+    sub_Q (fun t => Qold t \/ t = [] \/ ext (ann_stack s ++ style_anns d sty ++ [a]) t) s'.
+Proof.
+  intros Qold d mw i sty a cs st st' s rest Hw H E Hq.
+  rewrite app_assoc. set (A := ann_stack s ++ style_anns d sty).
+  set (Q' := fun t => Qold t \/ t = [] \/ ext (A ++ [a]) t).
+  assert (Qnil : Q' []) by (right; left; reflexivity).
+  assert (Hext : Qext Q' (A ++ [a])) by (intros x; right; right; exists x; reflexivity).
+  assert (core : forall g h f1 f2 st1 ps sa sb sc,
+     (forall m, m_ann (g m) = m_ann m ++ [a]) -> (forall m, h (g m) = m) ->
+     (forall s0 s0', f1 s0 = Ok s0' -> meta_of s0' = g (meta_of s0) /\
+        (Qext Q' (ann_stack s0 ++ [a]) -> sub_Q Q' s0 -> sub_Q Q' s0')) ->
+     opT Q' True h f2 ->
+     apply_style d st sty = Ok (st1, ps) -> with_top st1 f1 = Ok sa ->
+     fold_left (fun acc c => do s <- acc; render_node d mw c s) cs (Ok sa) = Ok sb ->
+     with_top sb f2 = Ok sc -> unwind d ps sc = Ok st' ->
+     exists s', stack st' = s' :: rest /\ sub_Q Q' s').
+  { intros g h f1 f2 st1 ps sa sb sc Hg Hinv O1 O2 Hap Hsa Hsb Hsc Hun.
+    destruct (apply_style_B Q' _ _ _ _ _ Hap) as [-> B1].
+    destruct (B1 s rest E) as (s1 & E1 & M1 & Q1).
+    assert (Ea1 : ann_stack s1 = A).
+    { change (m_ann (meta_of s1) = A). rewrite M1, g_style_ann. reflexivity. }
+    destruct (with_top_inv _ _ _ Hsa) as (x & r & s2 & Ex & Ef & ->).
+    rewrite E1 in Ex. injection Ex as <- <-. destruct (O1 _ _ Ef) as [M2 Q2].
+    assert (K2 : sub_Q Q' s2).
+    { apply Q2; [rewrite Ea1; exact Hext|]. apply Q1. revert Hq. apply sub_Q_impl. intros t Ht.
+      left. exact Ht. }
+    assert (Ea2 : ann_stack s2 = A ++ [a]).
+    { change (m_ann (meta_of s2) = A ++ [a]). rewrite M2, Hg. cbn [m_ann meta_of]. rewrite Ea1.
+      reflexivity. }
+    destruct (render_kids_tags Q' d mw cs _ sb s2 rest Qnil Hsb eq_refl) as (s3 & E3 & M3 & K3);
+      [rewrite Ea2; exact Hext|exact K2|].
+    destruct (with_top_inv _ _ _ Hsc) as (x & r & s4 & Ex & Ef4 & ->).
+    rewrite E3 in Ex. injection Ex as <- <-. destruct (O2 _ _ Ef4) as [M4 Q4].
+    assert (K4 : sub_Q Q' s4).
+    { apply Q4; [exact I| |exact K3]. rewrite (meta_ann _ _ M3), Ea2. exact Hext. }
+    destruct (unwind_B Q' _ _ _ _ Hun s4 rest eq_refl) as (s5 & E5 & M5 & Q5).
+    exists s5. split; [exact E5|apply Q5, K4]. }
+  destruct i; try discriminate; cbn [inline_ann] in Hw; injection Hw as <- <-;
+    cbn [render_node rn_info rn_style] in H; bind_inv H sz Hsz; bind_inv H ap Hap;
+    destruct ap as [st1 ps]; bind_inv H sa H1; bind_inv H sb H2; bind_inv H sc H3.
+  - (* IEm *)
+    eapply (core (m_push (snd (d_em_start d))) m_pop (start_emphasis d) (end_emphasis d));
+      [reflexivity|apply m_pop_push| |exact (end_deco_T Q' Qnil d True (d_em_end d))|
+       exact Hap|exact H1|exact H2|exact H3|exact H].
+    intros s0 s0' Hf. split; [exact (meta_start_deco d s0 (d_em_start d) s0' Hf)|].
+    exact (start_deco_Q Q' Qnil d (d_em_start d) s0 s0' Hf).
+  - (* IStrong *)
+    eapply (core (m_push (snd (d_strong_start d))) m_pop (start_strong d) (end_strong d));
+      [reflexivity|apply m_pop_push| |exact (end_deco_T Q' Qnil d True (d_strong_end d))|
+       exact Hap|exact H1|exact H2|exact H3|exact H].
+    intros s0 s0' Hf. split; [exact (meta_start_deco d s0 (d_strong_start d) s0' Hf)|].
+    exact (start_deco_Q Q' Qnil d (d_strong_start d) s0 s0' Hf).
+  - (* IStrikeout *)
+    eapply (core (fun m => m_filt_inc (m_push (snd (d_strike_start d)) m))
+                 (fun m => m_pop (m_filt_dec m)) (start_strikeout d) (end_strikeout d));
+      [|intros m; apply strike_inv| |exact (end_strikeout_T Q' Qnil d True)|
+       exact Hap|exact H1|exact H2|exact H3|exact H].
+    + intros m. unfold m_filt_inc. destruct (o_strike (m_o (m_push (snd (d_strike_start d)) m)));
+        reflexivity.
+    + intros s0 s0' Hf. split; [exact (meta_start_strikeout d s0 s0' Hf)|].
+      exact (start_strikeout_Q Q' Qnil d s0 s0' Hf).
+  - (* ICode *)
+    eapply (core (m_push (snd (d_code_start d))) m_pop (start_code d) (end_code d));
+      [reflexivity|apply m_pop_push| |exact (end_deco_T Q' Qnil d True (d_code_end d))|
+       exact Hap|exact H1|exact H2|exact H3|exact H].
+    intros s0 s0' Hf. split; [exact (meta_start_deco d s0 (d_code_start d) s0' Hf)|].
+    exact (start_deco_Q Q' Qnil d (d_code_start d) s0 s0' Hf).
+Qed.
+Print Assumptions inline_element_tags.
+
+(* ================================================================== *)
+(* 6. Non-vacuity examples                                              *)
+(* ================================================================== *)
+
+Definition ab_opts : ropts := render_options (with_decorator rich_deco).
+Definition ab_txt (l : list N) : rnode := ex_n (IText (ex_str l)).
+(* style="color:#f00" *)
+Definition ab_red : cstyle :=
+  mkcs (mkcore (maybe_update ws_default false OAuthor spec0 (255, 0, 0)) ws_default ws_default
+               ws_default ws_default) None None false.
+(* the style Dom.build_element gives a <pre> element *)
+Definition ab_pre : cstyle :=
+  mkcs (mkcore ws_default ws_default ws_default (maybe_update ws_default false OAgent spec0 WsPre)
+               ws_default) None None true.
+
+(* <p>ab <em>cd <strong>ef</strong></em> gh</p>
+   <blockquote style="color:#f00"><a href="u">q <code>r</code></a></blockquote>
+   <table><tr><td><em>x</em></td><td>y</td></tr></table>
+   <pre>p  q</pre> *)
+Definition ab_tree : rnode :=
+  ex_n (IContainer
+    [ex_n (IBlock [ab_txt [97;98;32];
+                   ex_n (IEm [ab_txt [99;100;32]; ex_n (IStrong [ab_txt [101;102]])]);
+                   ab_txt [32;103;104]]);
+     RN (IBlockQuote [ex_n (ILink (ex_str [117]) [ab_txt [113;32]; ex_n (ICode [ab_txt [114]])])]) ab_red;
+     ex_n (ITable [RRow [RCell 1 [ex_n (IEm [ab_txt [120]])] cstyle0; RCell 1 [ab_txt [121]] cstyle0]
+                        cstyle0] 2);
+     RN (IBlock [ab_txt [112;32;32;113]]) ab_pre]).
+
+(* observable: per line, the pieces as (code points, tag) *)
+Definition obs_line (l : tline) : list (list N * tag) :=
+  map (fun p => (cps (fst p), snd p)) (tl_tagged_strings l).
+Definition obs_sub (s : subr) : res (list (list (list N * tag))) :=
+  do ls <- sub_into_lines s; Ok (map (fun l => obs_line (rline_into_tagged l)) ls).
+Definition ab_obs (r : res subr) : res (list (list (list N * tag))) := do s <- r; obs_sub s.
+
+Definition ab_u : text := ex_str [117].
+
+Example ab_render_tree_obs :
+  ab_obs (render_tree rich_deco 3 ab_opts 20 ab_tree) =
+  Ok [[([97;98;32], []); ([99;100;32], [AEm]); ([101;102], [AEm; AStrong]); ([32;103;104], [])];
+      [];
+      [([62;32], [AColour 255 0 0]);
+       ([113;32], [AColour 255 0 0; ALink ab_u]);
+       ([114], [AColour 255 0 0; ALink ab_u; ACode])];
+      [];
+      [([9472;9516;9472], [])];
+      [([120], [AEm]); ([9474;121], [])];
+      [([9472;9524;9472], [])];
+      [];
+      [([112;32;32;113], [APre false])]].
+Proof. vm_compute. reflexivity. Qed.
+
+Definition ab_s : subr :=
+  match render_tree rich_deco 3 ab_opts 20 ab_tree with Ok s => s | _ => sub_new 0 ab_opts end.
+Example ab_render_tree_eq : render_tree rich_deco 3 ab_opts 20 ab_tree = Ok ab_s.
+Proof. vm_compute. reflexivity. Qed.
+Example ab_tree_balanced_applies : meta_of ab_s = mkmeta 20 ab_opts [] O 0 [].
+Proof. exact (render_tree_balanced rich_deco 3 ab_opts 20 ab_tree ab_s ab_render_tree_eq). Qed.
+
+(* the same tree rendered inside an open <strong>: a state whose top sub-renderer has the
+   annotation stack [AStrong] *)
+Definition ab_s0 : subr := set_ann (sub_new 20 ab_opts) [AStrong].
+Definition ab_st0 : rstate := mkrst [ab_s0] [].
+Definition ab_st1 : rstate :=
+  match render_node rich_deco 3 ab_tree ab_st0 with Ok st => st | _ => ab_st0 end.
+Example ab_render_node_eq : render_node rich_deco 3 ab_tree ab_st0 = Ok ab_st1.
+Proof. vm_compute. reflexivity. Qed.
+
+Example ab_balanced_applies :
+  exists s', stack ab_st1 = [s'] /\ meta_of s' = mkmeta 20 ab_opts [AStrong] O 0 [].
+Proof. exact (render_node_balanced rich_deco 3 ab_tree ab_st0 ab_st1 ab_s0 [] ab_render_node_eq eq_refl). Qed.
+
+Lemma ab_s0_empty (Q : tag -> Prop) : sub_Q Q ab_s0.
+Proof. unfold sub_Q. cbn. repeat split; constructor. Qed.
+
+Example ab_new_tags_applies :
+  exists s', stack ab_st1 = [s'] /\
+    sub_Q (fun t => False \/ t = [] \/ ext [AStrong] t) s'.
+Proof.
+  exact (render_node_new_tags (fun _ => False) rich_deco 3 ab_tree ab_st0 ab_st1 ab_s0 []
+                              ab_render_node_eq eq_refl (ab_s0_empty _)).
+Qed.
+
+(* a text leaf with its own colour, inside <strong>, inside <pre> (preformat depth 1) *)
+Definition ab_leaf : rnode := RN (IText (ex_str [112;32;32;113])) ab_red.
+Definition ab_s0p : subr := set_pre_depth ab_s0 1.
+Definition ab_st0p : rstate := mkrst [ab_s0p] [].
+Definition ab_st1p : rstate :=
+  match render_node rich_deco 3 ab_leaf ab_st0p with Ok st => st | _ => ab_st0p end.
+Example ab_leaf_eq : render_node rich_deco 3 ab_leaf ab_st0p = Ok ab_st1p.
+Proof. vm_compute. reflexivity. Qed.
+Example ab_leaf_applies :
+  exists s', stack ab_st1p = [s'] /\ meta_of s' = meta_of ab_s0p /\
+    sub_Q (fun x => False \/ x = [] \/ x = [AStrong; AColour 255 0 0; APre false]
+                                    \/ x = [AStrong; AColour 255 0 0; APre true]) s'.
+Proof.
+  exact (text_leaf_tags (fun _ => False) rich_deco 3 _ ab_red ab_st0p ab_st1p ab_s0p []
+                        ab_leaf_eq eq_refl (ab_s0_empty _)).
+Qed.
+Example ab_leaf_obs :
+  match stack ab_st1p with [s'] => obs_sub s' | _ => Panic 0 end =
+  Ok [[([112;32;113], [AStrong; AColour 255 0 0; APre false])]].
+Proof. vm_compute. reflexivity. Qed.
+
+(* an inline element: <em style="color:#f00">cd <strong>ef</strong></em> inside <strong> *)
+Definition ab_em : rnode :=
+  RN (IEm [ab_txt [99;100;32]; ex_n (IStrong [ab_txt [101;102]])]) ab_red.
+Definition ab_st1e : rstate :=
+  match render_node rich_deco 3 ab_em ab_st0 with Ok st => st | _ => ab_st0 end.
+Example ab_em_eq : render_node rich_deco 3 ab_em ab_st0 = Ok ab_st1e.
+Proof. vm_compute. reflexivity. Qed.
+Example ab_em_applies :
+  exists s', stack ab_st1e = [s'] /\
+    sub_Q (fun t => False \/ t = [] \/ ext [AStrong; AColour 255 0 0; AEm] t) s'.
+Proof.
+  exact (inline_element_tags (fun _ => False) rich_deco 3
+           (IEm [ab_txt [99;100;32]; ex_n (IStrong [ab_txt [101;102]])]) ab_red AEm
+           [ab_txt [99;100;32]; ex_n (IStrong [ab_txt [101;102]])] ab_st0 ab_st1e ab_s0 []
+           eq_refl ab_em_eq eq_refl (ab_s0_empty _)).
+Qed.
+
+(* ================================================================== *)
+(* 7. FINDINGS (behaviour of html2text that the model reproduces)       *)
+(* ================================================================== *)
+
+(* F1.  new_sub_renderer copies the annotation stack but neither the preformat depth nor the
+   white-space mode stack (new_sub_renderer_meta above).  So a block that gets its own
+   sub-renderer (list item, block quote, heading, dd, table cell) inside <pre> loses both
+   the Preformat annotation and the preserved white space:
+   <pre>a  b<ul><li>x  y</li></ul>c  d</pre>  renders  "* x y"  with the empty tag.
+   (Implementation, rich decorator, width 40: same output.)  This contradicts "every piece of
+   text carries exactly the annotations of the elements that enclose it ... preformatted with
+   its continuation flag ... independent of block nesting and table cells". *)
+Definition f1_tree : rnode :=
+  RN (IBlock [ab_txt [97;32;32;98];
+              ex_n (IUl [ex_n (IListItem [ab_txt [120;32;32;121]])]);
+              ab_txt [99;32;32;100]]) ab_pre.
+Example f1_pre_lost_in_sub_renderer :
+  ab_obs (render_tree rich_deco 3 ab_opts 20 f1_tree) =
+  Ok [[([97;32;32;98], [APre false])];
+      [([42;32;120;32;121], [])];
+      [([99;32;32;100], [APre false])]].
+Proof. vm_compute. reflexivity. Qed.
+
+(* F2.  The same for the strikeout text filter: <s>ab<ul><li>cd</li></ul>ef</s> with the plain
+   decorator strikes "ab" and "ef" (U+0336 after each character) but not "cd", although with
+   the rich decorator "cd" does carry the Strikeout annotation (the annotation stack is copied,
+   the filter stack is not). *)
+Definition f2_tree : rnode :=
+  ex_n (IStrikeout [ab_txt [97;98]; ex_n (IUl [ex_n (IListItem [ab_txt [99;100]])]); ab_txt [101;102]]).
+Example f2_strike_filter_lost_in_sub_renderer :
+  ab_obs (render_tree plain_deco 3 (render_options (with_decorator plain_deco)) 20 f2_tree) =
+  Ok [[([97;822;98;822], [ADefault])];
+      [([42;32;99;100], [ADefault])];
+      [([101;822;102;822], [ADefault])]].
+Proof. vm_compute. reflexivity. Qed.
+Example f2_rich_annotation_kept :
+  ab_obs (render_tree rich_deco 3 ab_opts 20 f2_tree) =
+  Ok [[([97;822;98;822], [AStrike])];
+      [([42;32;99;100], [AStrike])];
+      [([101;822;102;822], [AStrike])]].
+Proof. vm_compute. reflexivity. Qed.
+
+(* F3.  Block padding takes the tag of the pending inter-word space (spacetag) even when the
+   element it came from is closed: <p>x<em> </em></p> at width 6 with pad_block_width pads the
+   line with five spaces tagged Emphasis; <p>x<strong>y </strong> </p> likewise.  (Same on the
+   implementation.)  Harmless for text, but the padding is outside the element. *)
+Definition f3_tree : rnode := ex_n (IBlock [ab_txt [120]; ex_n (IEm [ab_txt [32]])]).
+Example f3_padding_takes_stale_space_tag :
+  ab_obs (render_tree rich_deco 3 (render_options (set_pad (with_decorator rich_deco))) 6 f3_tree) =
+  Ok [[([120], []); ([32;32;32;32;32], [AEm])]].
+Proof. vm_compute. reflexivity. Qed.
